@@ -1,3 +1,2603 @@
-//! C08 harnesses (see /verif/DESIGN.md section 5).
+//! C08 - every header value survives encode -> decode unchanged.
+//!
+//! Two directions per serialisable type:
+//!  (1) `*_value`: arbitrary well-formed value v -> all serialisers (`to_bytes`, `write` into a
+//!      capturing writer, `write_to_slice` where the type has one) agree byte for byte, the length
+//!      is `header_len()`, and every decoder (`from_slice`, `from_bytes`, `read`) gives back `v`
+//!      with an empty remainder / a fully consumed reader.
+//!  (2) `*_bytes`: arbitrary byte string b (len <= N) -> if the decoder accepts it,
+//!      `encode(decode(b)) == b & mask` where `mask` clears exactly the bits that the format
+//!      reserves or the type documents as not stored (every cleared bit is justified next to the
+//!      mask), and `decode(encode(decode(b))) == decode(b)` with an empty remainder.
+//!
+//! Well-formedness predicates of direction (1) are written from the RFCs / IEEE layouts and the
+//! documented constructors; no constant of etherparse is used for them.
+//!
+//! Test doubles never fail and never build an `io::Error` (a symbolic `io::Error` drop is very
+//! expensive for CBMC): the writer records an `overflow` flag, the reader an `overrun` flag, and
+//! both are asserted to be false.
 
-crate::harnesses! {}
+use crate::sym::{any, any_le, assume};
+use crate::witness;
+use etherparse::*;
+use std::io;
+
+// ------------------------------------------------------------------------------------------
+// test doubles
+// ------------------------------------------------------------------------------------------
+
+/// capturing writer: appends everything into a fixed array (copy_from_slice only)
+pub struct Cap<const N: usize> {
+    pub buf: [u8; N],
+    pub len: usize,
+    pub overflow: bool,
+}
+
+impl<const N: usize> Cap<N> {
+    pub fn new() -> Self {
+        Cap { buf: [0u8; N], len: 0, overflow: false }
+    }
+    #[inline]
+    fn put(&mut self, data: &[u8]) {
+        let n = data.len();
+        if n > N - self.len {
+            self.overflow = true;
+            return;
+        }
+        self.buf[self.len..self.len + n].copy_from_slice(data);
+        self.len += n;
+    }
+    pub fn bytes(&self) -> &[u8] {
+        &self.buf[..self.len]
+    }
+}
+
+impl<const N: usize> io::Write for Cap<N> {
+    #[inline]
+    fn write(&mut self, data: &[u8]) -> io::Result<usize> {
+        self.put(data);
+        Ok(data.len())
+    }
+    #[inline]
+    fn write_all(&mut self, data: &[u8]) -> io::Result<()> {
+        self.put(data);
+        Ok(())
+    }
+    #[inline]
+    fn flush(&mut self) -> io::Result<()> {
+        Ok(())
+    }
+}
+
+/// reader over a byte slice; a read past the end is recorded (and zero filled), never an error
+pub struct Rd<'a> {
+    data: &'a [u8],
+    pub pos: usize,
+    pub overrun: bool,
+    pub seeked: bool,
+}
+
+impl<'a> Rd<'a> {
+    pub fn new(data: &'a [u8]) -> Self {
+        Rd { data, pos: 0, overrun: false, seeked: false }
+    }
+    #[inline]
+    fn take(&mut self, buf: &mut [u8]) {
+        let n = buf.len();
+        if n > self.data.len() - self.pos {
+            self.overrun = true;
+            return;
+        }
+        buf.copy_from_slice(&self.data[self.pos..self.pos + n]);
+        self.pos += n;
+    }
+    /// the decoder consumed exactly the whole input, never asked for more, never seeked
+    pub fn exact(&self) -> bool {
+        !self.overrun && !self.seeked && self.pos == self.data.len()
+    }
+}
+
+impl<'a> io::Read for Rd<'a> {
+    #[inline]
+    fn read(&mut self, buf: &mut [u8]) -> io::Result<usize> {
+        self.take(buf);
+        Ok(buf.len())
+    }
+    #[inline]
+    fn read_exact(&mut self, buf: &mut [u8]) -> io::Result<()> {
+        self.take(buf);
+        Ok(())
+    }
+}
+
+impl<'a> io::Seek for Rd<'a> {
+    fn seek(&mut self, _: io::SeekFrom) -> io::Result<u64> {
+        self.seeked = true;
+        Ok(self.pos as u64)
+    }
+}
+
+/// unwrap without running the drop glue of the error type (io::Error inside)
+macro_rules! must_ok {
+    ($e:expr) => {
+        match $e {
+            Ok(v) => v,
+            Err(e) => {
+                core::mem::forget(e);
+                panic!("C08: result must be Ok")
+            }
+        }
+    };
+}
+
+fn any_bool() -> bool {
+    any()
+}
+
+// ------------------------------------------------------------------------------------------
+// Ethernet II
+// ------------------------------------------------------------------------------------------
+
+pub fn eth2_value() {
+    let h = Ethernet2Header { source: any(), destination: any(), ether_type: EtherType(any()) };
+    let b = h.to_bytes();
+    assert!(h.header_len() == 14);
+    assert!(b.len() == h.header_len());
+    // write
+    let mut w = Cap::<16>::new();
+    must_ok!(h.write(&mut w));
+    assert!(!w.overflow);
+    assert!(w.bytes() == &b[..]);
+    // write_to_slice: exactly the header bytes, rest returned and untouched
+    let mut s: [u8; 17] = any();
+    let orig = s;
+    {
+        let rest = must_ok!(h.write_to_slice(&mut s));
+        assert!(rest.len() == 3);
+    }
+    assert!(s[..14] == b[..]);
+    assert!(s[14..] == orig[14..]);
+    // decoders
+    let (d, rest) = must_ok!(Ethernet2Header::from_slice(&b));
+    assert!(d == h);
+    assert!(rest.is_empty());
+    assert!(Ethernet2Header::from_bytes(b) == h);
+    let mut r = Rd::new(&b);
+    let d = must_ok!(Ethernet2Header::read(&mut r));
+    assert!(d == h);
+    assert!(r.exact());
+}
+
+pub fn eth2_bytes() {
+    let buf: [u8; 18] = any();
+    let len = any_le(18);
+    let b = &buf[..len];
+    match Ethernet2Header::from_slice(b) {
+        Ok((h, rest)) => {
+            witness!(true, "accepted");
+            witness!(!rest.is_empty(), "accepted_with_rest");
+            assert!(len >= 14 && rest.len() == len - 14);
+            assert!(rest.as_ptr() == b[14..].as_ptr());
+            // IEEE 802.3: destination, source, ether type - no reserved bit
+            let e = h.to_bytes();
+            assert!(e[..] == b[..14]);
+            let (h2, rest2) = must_ok!(Ethernet2Header::from_slice(&e));
+            assert!(h2 == h);
+            assert!(rest2.is_empty());
+        }
+        Err(e) => {
+            core::mem::forget(e);
+            witness!(true, "rejected");
+        }
+    }
+}
+
+
+// ------------------------------------------------------------------------------------------
+// small symbolic value builders (acceptance sets of the documented checked constructors)
+// ------------------------------------------------------------------------------------------
+
+fn vlan_pcp() -> VlanPcp {
+    let v: u8 = any();
+    assume(v < 8); // 3 bit
+    must_ok!(VlanPcp::try_new(v))
+}
+fn vlan_id() -> VlanId {
+    let v: u16 = any();
+    assume(v < (1 << 12)); // 12 bit
+    must_ok!(VlanId::try_new(v))
+}
+fn dscp() -> IpDscp {
+    let v: u8 = any();
+    assume(v < 64); // 6 bit
+    must_ok!(IpDscp::try_new(v))
+}
+fn ecn() -> IpEcn {
+    let v: u8 = any();
+    assume(v < 4); // 2 bit
+    must_ok!(IpEcn::try_new(v))
+}
+fn frag_offset() -> IpFragOffset {
+    let v: u16 = any();
+    assume(v < (1 << 13)); // 13 bit
+    must_ok!(IpFragOffset::try_new(v))
+}
+fn flow_label() -> Ipv6FlowLabel {
+    let v: u32 = any();
+    assume(v < (1 << 20)); // 20 bit
+    must_ok!(Ipv6FlowLabel::try_new(v))
+}
+
+// ------------------------------------------------------------------------------------------
+// Linux cooked capture v1 (LINKTYPE_LINUX_SLL)
+// ------------------------------------------------------------------------------------------
+
+/// well formed: packet type 0..=7 (if_packet.h), ARPHRD one of the five the crate documents as
+/// supported, protocol type variant = the one documented for that ARPHRD; for ARPHRD_ETHER the
+/// typed `LinuxNonstandardEtherType` wherever the number has one.
+fn sll_header() -> LinuxSllHeader {
+    let pt: u16 = any();
+    assume(pt <= 7);
+    let packet_type = must_ok!(LinuxSllPacketType::try_from(pt));
+    let k: u8 = any();
+    assume(k < 5);
+    let v: u16 = any();
+    // linux/if_arp.h: ARPHRD_NETLINK 824, ARPHRD_IPGRE 778, ARPHRD_IEEE80211_RADIOTAP 803,
+    // ARPHRD_FRAD 770, ARPHRD_ETHER 1
+    let (arp, proto) = match k {
+        0 => (ArpHardwareId(824), LinuxSllProtocolType::NetlinkProtocolType(v)),
+        1 => (ArpHardwareId(778), LinuxSllProtocolType::GenericRoutingEncapsulationProtocolType(v)),
+        2 => (ArpHardwareId(803), LinuxSllProtocolType::Ignored(v)),
+        3 => (ArpHardwareId(770), LinuxSllProtocolType::Ignored(v)),
+        _ => (
+            ArpHardwareId(1),
+            match LinuxNonstandardEtherType::try_from(v) {
+                Ok(n) => LinuxSllProtocolType::LinuxNonstandardEtherType(n),
+                Err(()) => LinuxSllProtocolType::EtherType(EtherType(v)),
+            },
+        ),
+    };
+    LinuxSllHeader {
+        packet_type,
+        arp_hrd_type: arp,
+        sender_address_valid_length: any(),
+        sender_address: any(),
+        protocol_type: proto,
+    }
+}
+
+pub fn sll_value() {
+    let h = sll_header();
+    witness!(matches!(h.protocol_type, LinuxSllProtocolType::LinuxNonstandardEtherType(_)), "nonstandard_ether_type");
+    witness!(matches!(h.protocol_type, LinuxSllProtocolType::EtherType(_)), "ether_type");
+    witness!(matches!(h.protocol_type, LinuxSllProtocolType::Ignored(_)), "ignored");
+    let b = h.to_bytes();
+    assert!(h.header_len() == 16);
+    assert!(b.len() == h.header_len());
+    let mut w = Cap::<20>::new();
+    must_ok!(h.write(&mut w));
+    assert!(!w.overflow);
+    assert!(w.bytes() == &b[..]);
+    let mut s: [u8; 19] = any();
+    let orig = s;
+    {
+        let rest = must_ok!(h.write_to_slice(&mut s));
+        assert!(rest.len() == 3);
+    }
+    assert!(s[..16] == b[..]);
+    assert!(s[16..] == orig[16..]);
+    let (d, rest) = must_ok!(LinuxSllHeader::from_slice(&b));
+    assert!(d == h);
+    assert!(rest.is_empty());
+    let d = must_ok!(LinuxSllHeader::from_bytes(b));
+    assert!(d == h);
+    let mut r = Rd::new(&b);
+    let d = must_ok!(LinuxSllHeader::read(&mut r));
+    assert!(d == h);
+    assert!(r.exact());
+}
+
+pub fn sll_bytes() {
+    let buf: [u8; 20] = any();
+    let len = any_le(20);
+    let b = &buf[..len];
+    match LinuxSllHeader::from_slice(b) {
+        Ok((h, rest)) => {
+            witness!(true, "accepted");
+            witness!(!rest.is_empty(), "accepted_with_rest");
+            assert!(len >= 16 && rest.len() == len - 16);
+            assert!(rest.as_ptr() == b[16..].as_ptr());
+            // LINKTYPE_LINUX_SLL: packet type, ARPHRD, address length, 8 address bytes, protocol:
+            // no reserved bit, nothing normalised
+            let e = h.to_bytes();
+            assert!(e[..] == b[..16]);
+            let (h2, rest2) = must_ok!(LinuxSllHeader::from_slice(&e));
+            assert!(h2 == h);
+            assert!(rest2.is_empty());
+        }
+        Err(e) => {
+            core::mem::forget(e);
+            witness!(true, "rejected");
+        }
+    }
+}
+
+// ------------------------------------------------------------------------------------------
+// IEEE 802.1Q VLAN tag
+// ------------------------------------------------------------------------------------------
+
+fn vlan_header() -> SingleVlanHeader {
+    SingleVlanHeader {
+        pcp: vlan_pcp(),
+        drop_eligible_indicator: any_bool(),
+        vlan_id: vlan_id(),
+        ether_type: EtherType(any()),
+    }
+}
+
+pub fn vlan_value() {
+    let h = vlan_header();
+    let b = h.to_bytes();
+    assert!(h.header_len() == 4);
+    assert!(b.len() == h.header_len());
+    let mut w = Cap::<8>::new();
+    must_ok!(h.write(&mut w));
+    assert!(!w.overflow);
+    assert!(w.bytes() == &b[..]);
+    let (d, rest) = must_ok!(SingleVlanHeader::from_slice(&b));
+    assert!(d == h);
+    assert!(rest.is_empty());
+    assert!(SingleVlanHeader::from_bytes(b) == h);
+    let mut r = Rd::new(&b);
+    let d = must_ok!(SingleVlanHeader::read(&mut r));
+    assert!(d == h);
+    assert!(r.exact());
+}
+
+pub fn vlan_bytes() {
+    let buf: [u8; 8] = any();
+    let len = any_le(8);
+    let b = &buf[..len];
+    match SingleVlanHeader::from_slice(b) {
+        Ok((h, rest)) => {
+            witness!(true, "accepted");
+            witness!(!rest.is_empty(), "accepted_with_rest");
+            assert!(len >= 4 && rest.len() == len - 4);
+            assert!(rest.as_ptr() == b[4..].as_ptr());
+            // 802.1Q TCI = PCP(3) DEI(1) VID(12) + ether type: all 32 bits carry a field
+            let e = h.to_bytes();
+            assert!(e[..] == b[..4]);
+            let (h2, rest2) = must_ok!(SingleVlanHeader::from_slice(&e));
+            assert!(h2 == h);
+            assert!(rest2.is_empty());
+        }
+        Err(e) => {
+            core::mem::forget(e);
+            witness!(true, "rejected");
+        }
+    }
+}
+
+// ------------------------------------------------------------------------------------------
+// IEEE 802.1AE MACsec SecTAG
+// ------------------------------------------------------------------------------------------
+
+/// well formed: all four payload types, with/without SCI. The one inconsistent combination is
+/// excluded: `Unmodified` (ether type follows, counted in the short length) with short length 1 -
+/// a short length of 1 cannot even cover the 2 byte ether type; `expected_payload_len` documents
+/// it as undeterminable and the decoder rejects it (`InvalidUnmodifiedShortLen`).
+fn macsec_header() -> MacsecHeader {
+    let k: u8 = any();
+    assume(k < 4);
+    let ptype = match k {
+        0 => MacsecPType::Unmodified(EtherType(any())),
+        1 => MacsecPType::Modified,
+        2 => MacsecPType::Encrypted,
+        _ => MacsecPType::EncryptedUnmodified,
+    };
+    let an: u8 = any();
+    assume(an < 4); // 2 bit
+    let sl: u8 = any();
+    assume(sl < 64); // 6 bit
+    assume(!(k == 0 && sl == 1));
+    let has_sci = any_bool();
+    let sci: u64 = any();
+    MacsecHeader {
+        ptype,
+        endstation_id: any_bool(),
+        scb: any_bool(),
+        an: must_ok!(MacsecAn::try_new(an)),
+        short_len: must_ok!(MacsecShortLen::try_from_u8(sl)),
+        packet_nr: any(),
+        sci: if has_sci { Some(sci) } else { None },
+    }
+}
+
+pub fn macsec_value() {
+    let h = macsec_header();
+    let b = h.to_bytes();
+    let hl = h.header_len();
+    witness!(hl == 6, "layout_6");
+    witness!(hl == 8, "layout_8");
+    witness!(hl == 14, "layout_14");
+    witness!(hl == 16, "layout_16");
+    assert!(b.len() == hl);
+    let mut w = Cap::<20>::new();
+    must_ok!(h.write(&mut w));
+    assert!(!w.overflow);
+    assert!(w.bytes() == &b[..]);
+    let d = must_ok!(MacsecHeader::from_slice(&b));
+    assert!(d == h);
+    // "empty remainder": the header slice covers every byte that was produced
+    let s = must_ok!(MacsecHeaderSlice::from_slice(&b));
+    assert!(s.slice().len() == b.len());
+    assert!(s.header_len() == hl);
+    let mut r = Rd::new(&b);
+    let d = must_ok!(MacsecHeader::read(&mut r));
+    assert!(d == h);
+    assert!(r.exact());
+}
+
+pub fn macsec_bytes() {
+    let buf: [u8; 18] = any();
+    let len = any_le(18);
+    let b = &buf[..len];
+    match MacsecHeaderSlice::from_slice(b) {
+        Ok(s) => {
+            witness!(true, "accepted");
+            let h = s.to_header();
+            let hl = h.header_len();
+            witness!(hl < len, "accepted_with_rest");
+            witness!(b[1] & 0xc0 != 0, "reserved_sl_bits_set");
+            assert!(hl <= len);
+            assert!(s.slice().len() == hl);
+            assert!(s.slice().as_ptr() == b.as_ptr());
+            let e = h.to_bytes();
+            assert!(e.len() == hl);
+            let mut i = 0;
+            while i < hl {
+                // 802.1AE 9.7: the SL octet is 00 SL(6) - the two top bits are reserved and not
+                // kept by MacsecShortLen. (The version bit of the TCI is zero in every accepted tag.)
+                let m: u8 = if i == 1 { 0x3f } else { 0xff };
+                assert!(e[i] == b[i] & m);
+                i += 1;
+            }
+            let h2 = must_ok!(MacsecHeader::from_slice(&e));
+            assert!(h2 == h);
+            let s2 = must_ok!(MacsecHeaderSlice::from_slice(&e));
+            assert!(s2.slice().len() == e.len());
+        }
+        Err(e) => {
+            core::mem::forget(e);
+            witness!(true, "rejected");
+        }
+    }
+}
+
+// ------------------------------------------------------------------------------------------
+// link layer wrappers (dispatch only)
+// ------------------------------------------------------------------------------------------
+
+pub fn link_wrappers() {
+    // LinkHeader
+    let e = Ethernet2Header { source: any(), destination: any(), ether_type: EtherType(any()) };
+    let l = LinkHeader::Ethernet2(e.clone());
+    assert!(l.header_len() == e.header_len());
+    let mut w = Cap::<20>::new();
+    must_ok!(l.write(&mut w));
+    assert!(!w.overflow);
+    assert!(w.bytes() == &e.to_bytes()[..]);
+
+    let s = sll_header();
+    let l = LinkHeader::LinuxSll(s.clone());
+    assert!(l.header_len() == s.header_len());
+    let mut w = Cap::<20>::new();
+    must_ok!(l.write(&mut w));
+    assert!(!w.overflow);
+    assert!(w.bytes() == &s.to_bytes()[..]);
+
+    // LinkExtHeader (no serialiser of its own; announces the length of its member)
+    let v = vlan_header();
+    assert!(LinkExtHeader::Vlan(v.clone()).header_len() == v.to_bytes().len());
+    let m = macsec_header();
+    assert!(LinkExtHeader::Macsec(m.clone()).header_len() == m.to_bytes().len());
+}
+
+// ------------------------------------------------------------------------------------------
+// ARP
+// ------------------------------------------------------------------------------------------
+
+/// `ArpPacket` keeps four 255 byte `MaybeUninit` buffers and serialises through an
+/// `ArrayVec<u8, 1028>`; copies of *symbolic* length into those exhaust CBMC's memory even for
+/// sizes <= 2 (measured), so the address sizes are concrete per harness (const generics) and
+/// everything else - types, operation, all address bytes - is symbolic. The offsets of the four
+/// address fields are affine in (hlen, plen); the pairs used are not collinear.
+fn arp_fixed<const H: usize, const P: usize>() -> ArpPacket {
+    let a: [u8; H] = any();
+    let b: [u8; P] = any();
+    let c: [u8; H] = any();
+    let d: [u8; P] = any();
+    must_ok!(ArpPacket::new(ArpHardwareId(any()), EtherType(any()), ArpOperation(any()), &a, &b, &c, &d))
+}
+
+/// value with sizes (H, P) that previously held (H0, P0) >= (H, P): the internal buffers keep
+/// stale bytes behind the valid part
+fn arp_shrunk<const H0: usize, const P0: usize, const H: usize, const P: usize>() -> ArpPacket {
+    let mut v = arp_fixed::<H0, P0>();
+    let a: [u8; H] = any();
+    let b: [u8; P] = any();
+    let c: [u8; H] = any();
+    let d: [u8; P] = any();
+    must_ok!(v.set_hw_addrs(&a, &c));
+    must_ok!(v.set_protocol_addrs(&b, &d));
+    v
+}
+
+/// to_bytes == write, length == packet_len, from_slice gives the value back (L = 8 + 2H + 2P)
+fn arp_check_slice<const L: usize>(v: &ArpPacket) {
+    let bv = v.to_bytes();
+    assert!(bv.len() == v.packet_len());
+    assert!(bv.len() == L);
+    // plain array copy: reads from the 1028 byte ArrayVec are expensive for CBMC
+    let mut b = [0u8; L];
+    b.copy_from_slice(&bv);
+    let mut w = Cap::<L>::new();
+    must_ok!(v.write(&mut w));
+    assert!(!w.overflow);
+    assert!(w.len == L);
+    assert!(w.buf == b);
+    let d = must_ok!(ArpPacket::from_slice(&b));
+    assert!(d == *v);
+    let s = must_ok!(ArpPacketSlice::from_slice(&b));
+    assert!(s.slice().len() == L); // empty remainder
+    assert!(NetHeaders::Arp(d).header_len() == L);
+}
+
+/// write -> read gives the value back and consumes exactly the packet
+fn arp_check_read<const L: usize>(v: &ArpPacket) {
+    let mut w = Cap::<L>::new();
+    must_ok!(v.write(&mut w));
+    assert!(!w.overflow);
+    assert!(w.len == L);
+    let mut r = Rd::new(&w.buf);
+    let d = must_ok!(ArpPacket::read(&mut r));
+    assert!(d == *v);
+    assert!(r.exact());
+}
+
+pub fn arp_value_6_4() {
+    arp_check_slice::<28>(&arp_fixed::<6, 4>())
+}
+pub fn arp_read_6_4() {
+    arp_check_read::<28>(&arp_fixed::<6, 4>())
+}
+pub fn arp_value_0_0() {
+    arp_check_slice::<8>(&arp_fixed::<0, 0>())
+}
+pub fn arp_value_1_2() {
+    arp_check_slice::<14>(&arp_fixed::<1, 2>())
+}
+pub fn arp_read_1_2() {
+    arp_check_read::<14>(&arp_fixed::<1, 2>())
+}
+pub fn arp_value_8_8() {
+    arp_check_slice::<40>(&arp_fixed::<8, 8>())
+}
+pub fn arp_read_8_8() {
+    arp_check_read::<40>(&arp_fixed::<8, 8>())
+}
+pub fn arp_value_3_0() {
+    arp_check_slice::<14>(&arp_fixed::<3, 0>())
+}
+pub fn arp_value_0_5() {
+    arp_check_slice::<18>(&arp_fixed::<0, 5>())
+}
+pub fn arp_value_shrunk() {
+    arp_check_slice::<28>(&arp_shrunk::<8, 8, 6, 4>())
+}
+
+/// direction 2 with the two size bytes fixed to (H, P) and a buffer of exactly L + 2 bytes (a
+/// symbolic slice length would make the decoded sizes symbolic again after the Ok/Err merge):
+/// every other byte is symbolic, two bytes follow the packet
+fn arp_bytes_hp<const H: u8, const P: u8, const L: usize, const N: usize>() {
+    let mut buf: [u8; N] = any();
+    buf[4] = H;
+    buf[5] = P;
+    let s = must_ok!(ArpPacketSlice::from_slice(&buf));
+    assert!(N == L + 2);
+    assert!(s.slice().len() == L);
+    assert!(s.slice().as_ptr() == buf.as_ptr());
+    let v = s.to_packet();
+    assert!(v.packet_len() == L);
+    // RFC 826: htype, ptype, hlen, plen, oper, 4 addresses - no reserved bit
+    let ev = v.to_bytes();
+    assert!(ev.len() == L);
+    let mut e = [0u8; L];
+    e.copy_from_slice(&ev);
+    assert!(e[..] == buf[..L]);
+    let v2 = must_ok!(ArpPacket::from_slice(&e));
+    assert!(v2 == v);
+    let s2 = must_ok!(ArpPacketSlice::from_slice(&e));
+    assert!(s2.slice().len() == L);
+}
+
+pub fn arp_bytes_6_4() {
+    arp_bytes_hp::<6, 4, 28, 30>()
+}
+pub fn arp_bytes_1_2() {
+    arp_bytes_hp::<1, 2, 14, 16>()
+}
+pub fn arp_bytes_8_8() {
+    arp_bytes_hp::<8, 8, 40, 42>()
+}
+
+pub fn arp_eth_ipv4_value() {
+    let v = ArpEthIpv4Packet {
+        operation: ArpOperation(any()),
+        sender_mac: any(),
+        sender_ipv4: any(),
+        target_mac: any(),
+        target_ipv4: any(),
+    };
+    let b = v.to_bytes();
+    assert!(b.len() == 28);
+    // the generic packet made from it serialises to the same bytes (to_bytes and write)
+    let g = v.to_arp_packet();
+    assert!(g.packet_len() == 28);
+    let gv = g.to_bytes();
+    assert!(gv.len() == 28);
+    let mut gb = [0u8; 28];
+    gb.copy_from_slice(&gv);
+    assert!(gb == b);
+    let mut w = Cap::<28>::new();
+    must_ok!(g.write(&mut w));
+    assert!(!w.overflow);
+    assert!(w.len == 28 && w.buf == b);
+    // decode
+    let d = must_ok!(ArpPacket::from_slice(&b));
+    assert!(d == g);
+    let s = must_ok!(ArpPacketSlice::from_slice(&b));
+    assert!(s.slice().len() == 28);
+    let t = must_ok!(d.try_eth_ipv4());
+    assert!(t == v);
+    let t = must_ok!(ArpEthIpv4Packet::try_from(d));
+    assert!(t == v);
+}
+
+pub fn arp_eth_ipv4_bytes() {
+    let buf: [u8; 30] = any();
+    let len = any_le(30);
+    let b = &buf[..len];
+    if let Ok(p) = ArpPacket::from_slice(b) {
+        match p.try_eth_ipv4() {
+            Ok(v) => {
+                witness!(true, "accepted");
+                witness!(len > 28, "accepted_with_rest");
+                let e = v.to_bytes();
+                assert!(len >= 28);
+                assert!(e[..] == b[..28]);
+                let p2 = must_ok!(ArpPacket::from_slice(&e));
+                let v2 = must_ok!(p2.try_eth_ipv4());
+                assert!(v2 == v);
+            }
+            Err(e) => {
+                core::mem::forget(e);
+                witness!(true, "not_eth_ipv4");
+            }
+        }
+    }
+}
+
+
+// ------------------------------------------------------------------------------------------
+// IPv4 header (+ options)
+// ------------------------------------------------------------------------------------------
+
+/// all field values; options: all 11 lengths 0,4,..,40 with arbitrary content (exactly the
+/// acceptance set of `Ipv4Options::try_from(&[u8])`)
+fn ipv4_header_w(words: usize) -> Ipv4Header {
+    let data: [u8; 40] = any();
+    let options: Ipv4Options = must_ok!(Ipv4Options::try_from(&data[..words * 4]));
+    Ipv4Header {
+        dscp: dscp(),
+        ecn: ecn(),
+        total_len: any(),
+        identification: any(),
+        dont_fragment: any_bool(),
+        more_fragments: any_bool(),
+        fragment_offset: frag_offset(),
+        time_to_live: any(),
+        protocol: IpNumber(any()),
+        header_checksum: any(),
+        source: any(),
+        destination: any(),
+        options,
+    }
+}
+
+fn ipv4_header() -> Ipv4Header {
+    ipv4_header_w(any_le(10))
+}
+
+pub fn ipv4_value() {
+    let h = ipv4_header();
+    let hl = h.header_len();
+    witness!(hl == 20, "no_options");
+    witness!(hl == 60, "max_options");
+    witness!(hl == 36, "some_options");
+    let b = h.to_bytes();
+    assert!(b.len() == hl);
+    assert!(hl == 20 + h.options.len());
+    // write_raw: the stored checksum, identical to to_bytes
+    let mut w = Cap::<64>::new();
+    must_ok!(h.write_raw(&mut w));
+    assert!(!w.overflow);
+    assert!(w.bytes() == &b[..]);
+    // decode
+    let (d, rest) = must_ok!(Ipv4Header::from_slice(&b));
+    assert!(d == h);
+    assert!(rest.is_empty());
+}
+
+pub fn ipv4_value_read() {
+    let h = ipv4_header();
+    let b = h.to_bytes();
+    let mut r = Rd::new(&b);
+    let d = must_ok!(Ipv4Header::read(&mut r));
+    assert!(d == h);
+    assert!(r.exact());
+}
+
+/// `write` puts the *computed* header checksum into bytes 10..12 (documented: "automatically
+/// calculates the header length and checksum"), everything else equals `to_bytes`
+fn ipv4_write_case(words: usize) {
+    let h = ipv4_header_w(words);
+    let hl = h.header_len();
+    let b = h.to_bytes();
+    let mut w = Cap::<64>::new();
+    must_ok!(h.write(&mut w));
+    assert!(!w.overflow);
+    assert!(w.len == hl);
+    assert!(hl == 20 + 4 * words);
+    assert!(w.buf[..10] == b[..10]);
+    assert!(w.buf[12..hl] == b[12..]);
+}
+
+pub fn ipv4_value_write() {
+    // the option length is made concrete per case (cheaper for the checksum loop); all 11 cases
+    let words = any_le(10);
+    let mut k = 0;
+    while k <= 10 {
+        if words == k {
+            witness!(k == 10, "max_options");
+            witness!(k == 0, "no_options");
+            ipv4_write_case(k);
+        }
+        k += 1;
+    }
+}
+
+pub fn ipv4_bytes() {
+    const N: usize = 64;
+    let buf: [u8; N] = any();
+    let len = any_le(N);
+    let b = &buf[..len];
+    match Ipv4Header::from_slice(b) {
+        Ok((h, rest)) => {
+            witness!(true, "accepted");
+            witness!(!rest.is_empty(), "accepted_with_rest");
+            witness!(b[6] & 0x80 != 0, "reserved_flag_set");
+            let hl = h.header_len();
+            witness!(hl == 60, "max_options");
+            assert!(hl <= len && rest.len() == len - hl);
+            assert!(rest.as_ptr() == b[hl..].as_ptr());
+            let e = h.to_bytes();
+            assert!(e.len() == hl);
+            let mut i = 0;
+            while i < hl {
+                // RFC 791 3.1: flags bit 0 (top bit of byte 6) is "reserved, must be zero";
+                // Ipv4Header has no field for it
+                let m: u8 = if i == 6 { 0x7f } else { 0xff };
+                assert!(e[i] == b[i] & m);
+                i += 1;
+            }
+            let (h2, rest2) = must_ok!(Ipv4Header::from_slice(&e));
+            assert!(h2 == h);
+            assert!(rest2.is_empty());
+        }
+        Err(e) => {
+            core::mem::forget(e);
+            witness!(true, "rejected");
+        }
+    }
+}
+
+// ------------------------------------------------------------------------------------------
+// IPv6 header
+// ------------------------------------------------------------------------------------------
+
+fn ipv6_header() -> Ipv6Header {
+    Ipv6Header {
+        traffic_class: any(),
+        flow_label: flow_label(),
+        payload_length: any(),
+        next_header: IpNumber(any()),
+        hop_limit: any(),
+        source: any(),
+        destination: any(),
+    }
+}
+
+pub fn ipv6_value() {
+    let h = ipv6_header();
+    let b = h.to_bytes();
+    assert!(h.header_len() == 40);
+    assert!(b.len() == h.header_len());
+    let mut w = Cap::<44>::new();
+    must_ok!(h.write(&mut w));
+    assert!(!w.overflow);
+    assert!(w.bytes() == &b[..]);
+    let (d, rest) = must_ok!(Ipv6Header::from_slice(&b));
+    assert!(d == h);
+    assert!(rest.is_empty());
+    let mut r = Rd::new(&b);
+    let d = must_ok!(Ipv6Header::read(&mut r));
+    assert!(d == h);
+    assert!(r.exact());
+}
+
+pub fn ipv6_bytes() {
+    const N: usize = 44;
+    let buf: [u8; N] = any();
+    let len = any_le(N);
+    let b = &buf[..len];
+    match Ipv6Header::from_slice(b) {
+        Ok((h, rest)) => {
+            witness!(true, "accepted");
+            witness!(!rest.is_empty(), "accepted_with_rest");
+            assert!(len >= 40 && rest.len() == len - 40);
+            assert!(rest.as_ptr() == b[40..].as_ptr());
+            // RFC 8200 3: version(4) traffic class(8) flow label(20) ... : no reserved bit
+            let e = h.to_bytes();
+            assert!(e[..] == b[..40]);
+            let (h2, rest2) = must_ok!(Ipv6Header::from_slice(&e));
+            assert!(h2 == h);
+            assert!(rest2.is_empty());
+        }
+        Err(e) => {
+            core::mem::forget(e);
+            witness!(true, "rejected");
+        }
+    }
+}
+
+// ------------------------------------------------------------------------------------------
+// IPv6 fragment header
+// ------------------------------------------------------------------------------------------
+
+fn ipv6_frag_header() -> Ipv6FragmentHeader {
+    Ipv6FragmentHeader::new(IpNumber(any()), frag_offset(), any_bool(), any())
+}
+
+pub fn ipv6_frag_value() {
+    let h = ipv6_frag_header();
+    let b = h.to_bytes();
+    assert!(h.header_len() == 8);
+    assert!(b.len() == h.header_len());
+    let mut w = Cap::<12>::new();
+    must_ok!(h.write(&mut w));
+    assert!(!w.overflow);
+    assert!(w.bytes() == &b[..]);
+    let (d, rest) = must_ok!(Ipv6FragmentHeader::from_slice(&b));
+    assert!(d == h);
+    assert!(rest.is_empty());
+    let mut r = Rd::new(&b);
+    let d = must_ok!(Ipv6FragmentHeader::read(&mut r));
+    assert!(d == h);
+    assert!(r.exact());
+}
+
+pub fn ipv6_frag_bytes() {
+    const N: usize = 12;
+    let buf: [u8; N] = any();
+    let len = any_le(N);
+    let b = &buf[..len];
+    match Ipv6FragmentHeader::from_slice(b) {
+        Ok((h, rest)) => {
+            witness!(true, "accepted");
+            witness!(!rest.is_empty(), "accepted_with_rest");
+            witness!(b[1] != 0 && b[3] & 6 != 0, "reserved_bits_set");
+            assert!(len >= 8 && rest.len() == len - 8);
+            assert!(rest.as_ptr() == b[8..].as_ptr());
+            let e = h.to_bytes();
+            let mut i = 0;
+            while i < 8 {
+                // RFC 8200 4.5: byte 1 "Reserved: 8-bit reserved field", bits 2..1 of byte 3
+                // "Res: 2-bit reserved field" - both "initialized to zero for transmission"
+                let m: u8 = match i {
+                    1 => 0x00,
+                    3 => 0xf9,
+                    _ => 0xff,
+                };
+                assert!(e[i] == b[i] & m);
+                i += 1;
+            }
+            let (h2, rest2) = must_ok!(Ipv6FragmentHeader::from_slice(&e));
+            assert!(h2 == h);
+            assert!(rest2.is_empty());
+        }
+        Err(e) => {
+            core::mem::forget(e);
+            witness!(true, "rejected");
+        }
+    }
+}
+
+// ------------------------------------------------------------------------------------------
+// UDP
+// ------------------------------------------------------------------------------------------
+
+fn udp_header() -> UdpHeader {
+    UdpHeader { source_port: any(), destination_port: any(), length: any(), checksum: any() }
+}
+
+pub fn udp_value() {
+    let h = udp_header();
+    let b = h.to_bytes();
+    assert!(h.header_len() == 8);
+    assert!(b.len() == h.header_len());
+    let mut w = Cap::<12>::new();
+    must_ok!(h.write(&mut w));
+    assert!(!w.overflow);
+    assert!(w.bytes() == &b[..]);
+    let (d, rest) = must_ok!(UdpHeader::from_slice(&b));
+    assert!(d == h);
+    assert!(rest.is_empty());
+    assert!(UdpHeader::from_bytes(b) == h);
+    let mut r = Rd::new(&b);
+    let d = must_ok!(UdpHeader::read(&mut r));
+    assert!(d == h);
+    assert!(r.exact());
+    // TransportHeader wrapper: same bytes, same length
+    let t = TransportHeader::Udp(h.clone());
+    assert!(t.header_len() == 8);
+    let mut w = Cap::<12>::new();
+    must_ok!(t.write(&mut w));
+    assert!(!w.overflow);
+    assert!(w.bytes() == &b[..]);
+}
+
+pub fn udp_bytes() {
+    const N: usize = 12;
+    let buf: [u8; N] = any();
+    let len = any_le(N);
+    let b = &buf[..len];
+    match UdpHeader::from_slice(b) {
+        Ok((h, rest)) => {
+            witness!(true, "accepted");
+            witness!(!rest.is_empty(), "accepted_with_rest");
+            assert!(len >= 8 && rest.len() == len - 8);
+            assert!(rest.as_ptr() == b[8..].as_ptr());
+            // RFC 768: four 16 bit fields, no reserved bit
+            let e = h.to_bytes();
+            assert!(e[..] == b[..8]);
+            let (h2, rest2) = must_ok!(UdpHeader::from_slice(&e));
+            assert!(h2 == h);
+            assert!(rest2.is_empty());
+        }
+        Err(e) => {
+            core::mem::forget(e);
+            witness!(true, "rejected");
+        }
+    }
+}
+
+// ------------------------------------------------------------------------------------------
+// TCP (+ options)
+// ------------------------------------------------------------------------------------------
+
+/// all field values; options: every slice length 0..=40 accepted by `TcpOptions::try_from_slice`
+/// (lengths that are no multiple of 4 are zero padded by the constructor - documented)
+fn tcp_header() -> TcpHeader {
+    let ol = any_le(40);
+    let data: [u8; 40] = any();
+    let options = must_ok!(TcpOptions::try_from_slice(&data[..ol]));
+    TcpHeader {
+        source_port: any(),
+        destination_port: any(),
+        sequence_number: any(),
+        acknowledgment_number: any(),
+        ns: any_bool(),
+        fin: any_bool(),
+        syn: any_bool(),
+        rst: any_bool(),
+        psh: any_bool(),
+        ack: any_bool(),
+        urg: any_bool(),
+        ece: any_bool(),
+        cwr: any_bool(),
+        window_size: any(),
+        checksum: any(),
+        urgent_pointer: any(),
+        options,
+    }
+}
+
+pub fn tcp_value() {
+    let h = tcp_header();
+    let hl = h.header_len();
+    witness!(hl == 20, "no_options");
+    witness!(hl == 60, "max_options");
+    witness!(hl == 32, "some_options");
+    let b = h.to_bytes();
+    assert!(b.len() == hl);
+    assert!(hl == 20 + h.options.len());
+    assert!(hl == h.header_len_u16() as usize);
+    let mut w = Cap::<64>::new();
+    must_ok!(h.write(&mut w));
+    assert!(!w.overflow);
+    assert!(w.bytes() == &b[..]);
+    let (d, rest) = must_ok!(TcpHeader::from_slice(&b));
+    assert!(d == h);
+    assert!(rest.is_empty());
+}
+
+pub fn tcp_value_read() {
+    let h = tcp_header();
+    let b = h.to_bytes();
+    let mut r = Rd::new(&b);
+    let d = must_ok!(TcpHeader::read(&mut r));
+    assert!(d == h);
+    assert!(r.exact());
+    // TransportHeader wrapper: same bytes, same length
+    let t = TransportHeader::Tcp(h.clone());
+    assert!(t.header_len() == h.header_len());
+    let mut w = Cap::<64>::new();
+    must_ok!(t.write(&mut w));
+    assert!(!w.overflow);
+    assert!(w.bytes() == &b[..]);
+}
+
+pub fn tcp_bytes() {
+    const N: usize = 64;
+    let buf: [u8; N] = any();
+    let len = any_le(N);
+    let b = &buf[..len];
+    match TcpHeader::from_slice(b) {
+        Ok((h, rest)) => {
+            witness!(true, "accepted");
+            witness!(!rest.is_empty(), "accepted_with_rest");
+            witness!(b[12] & 0x0e != 0, "reserved_bits_set");
+            let hl = h.header_len();
+            witness!(hl == 60, "max_options");
+            assert!(hl <= len && rest.len() == len - hl);
+            assert!(rest.as_ptr() == b[hl..].as_ptr());
+            let e = h.to_bytes();
+            assert!(e.len() == hl);
+            let mut i = 0;
+            while i < hl {
+                // RFC 9293 3.1 / RFC 3540: byte 12 = data offset(4) reserved(3) NS(1); the three
+                // reserved bits "must be zero in generated segments", TcpHeader has no field for them
+                let m: u8 = if i == 12 { 0xf1 } else { 0xff };
+                assert!(e[i] == b[i] & m);
+                i += 1;
+            }
+            let (h2, rest2) = must_ok!(TcpHeader::from_slice(&e));
+            assert!(h2 == h);
+            assert!(rest2.is_empty());
+        }
+        Err(e) => {
+            core::mem::forget(e);
+            witness!(true, "rejected");
+        }
+    }
+}
+
+
+// ------------------------------------------------------------------------------------------
+// ICMP echo header (shared by ICMPv4 / ICMPv6)
+// ------------------------------------------------------------------------------------------
+
+pub fn icmp_echo_rt() {
+    let h = IcmpEchoHeader { id: any(), seq: any() };
+    let b = h.to_bytes();
+    assert!(b.len() == IcmpEchoHeader::LEN);
+    assert!(IcmpEchoHeader::from_bytes(b) == h);
+    // RFC 792: identifier(16) sequence number(16), no reserved bit
+    let raw: [u8; 4] = any();
+    assert!(IcmpEchoHeader::from_bytes(raw).to_bytes() == raw);
+}
+
+// ------------------------------------------------------------------------------------------
+// ICMPv4
+// ------------------------------------------------------------------------------------------
+
+/// (type, code) pairs for which `Icmpv4Type` has a typed variant (RFC 792, RFC 1122/1812 codes of
+/// type 3, RFC 1108 / RFC 1122 codes of type 12); everything else is `Unknown`
+fn icmpv4_typed(t: u8, c: u8) -> bool {
+    match t {
+        0 | 8 | 13 | 14 => c == 0, // echo reply, echo, timestamp, timestamp reply
+        3 => c <= 15,              // destination unreachable
+        5 => c <= 3,               // redirect
+        11 => c <= 1,              // time exceeded
+        12 => c <= 2,              // parameter problem
+        _ => false,
+    }
+}
+
+fn icmpv4_timestamp() -> icmpv4::TimestampMessage {
+    icmpv4::TimestampMessage {
+        id: any(),
+        seq: any(),
+        originate_timestamp: any(),
+        receive_timestamp: any(),
+        transmit_timestamp: any(),
+    }
+}
+
+/// every variant of `Icmpv4Type` (and of the nested enums); `Unknown` only where no typed variant exists
+fn icmpv4_type() -> Icmpv4Type {
+    use icmpv4::*;
+    use Icmpv4Type::*;
+    let k: u8 = any();
+    assume(k < 9);
+    match k {
+        0 => {
+            let t: u8 = any();
+            let c: u8 = any();
+            assume(!icmpv4_typed(t, c));
+            Unknown { type_u8: t, code_u8: c, bytes5to8: any() }
+        }
+        1 => EchoReply(IcmpEchoHeader { id: any(), seq: any() }),
+        2 => {
+            use DestUnreachableHeader::*;
+            let c: u8 = any();
+            assume(c < 16);
+            DestinationUnreachable(match c {
+                0 => Network,
+                1 => Host,
+                2 => Protocol,
+                3 => Port,
+                4 => FragmentationNeeded { next_hop_mtu: any() },
+                5 => SourceRouteFailed,
+                6 => NetworkUnknown,
+                7 => HostUnknown,
+                8 => Isolated,
+                9 => NetworkProhibited,
+                10 => HostProhibited,
+                11 => TosNetwork,
+                12 => TosHost,
+                13 => FilterProhibited,
+                14 => HostPrecedenceViolation,
+                _ => PrecedenceCutoff,
+            })
+        }
+        3 => {
+            use RedirectCode::*;
+            let c: u8 = any();
+            assume(c < 4);
+            Redirect(RedirectHeader {
+                code: match c {
+                    0 => RedirectForNetwork,
+                    1 => RedirectForHost,
+                    2 => RedirectForTypeOfServiceAndNetwork,
+                    _ => RedirectForTypeOfServiceAndHost,
+                },
+                gateway_internet_address: any(),
+            })
+        }
+        4 => EchoRequest(IcmpEchoHeader { id: any(), seq: any() }),
+        5 => TimeExceeded(if any_bool() {
+            TimeExceededCode::TtlExceededInTransit
+        } else {
+            TimeExceededCode::FragmentReassemblyTimeExceeded
+        }),
+        6 => {
+            use ParameterProblemHeader::*;
+            let c: u8 = any();
+            assume(c < 3);
+            ParameterProblem(match c {
+                0 => PointerIndicatesError(any()),
+                1 => MissingRequiredOption,
+                _ => BadLength,
+            })
+        }
+        7 => TimestampRequest(icmpv4_timestamp()),
+        _ => TimestampReply(icmpv4_timestamp()),
+    }
+}
+
+fn icmpv4_header() -> Icmpv4Header {
+    Icmpv4Header { icmp_type: icmpv4_type(), checksum: any() }
+}
+
+pub fn icmpv4_value() {
+    let h = icmpv4_header();
+    let hl = h.header_len();
+    witness!(matches!(h.icmp_type, Icmpv4Type::Unknown { .. }), "unknown");
+    witness!(matches!(h.icmp_type, Icmpv4Type::Unknown { type_u8: 3, .. }), "unknown_code_of_known_type");
+    witness!(matches!(h.icmp_type, Icmpv4Type::TimestampReply(_)), "timestamp_reply");
+    witness!(matches!(h.icmp_type, Icmpv4Type::ParameterProblem(_)), "parameter_problem");
+    let b = h.to_bytes();
+    assert!(b.len() == hl);
+    assert!(hl == h.icmp_type.header_len());
+    let (d, rest) = must_ok!(Icmpv4Header::from_slice(&b));
+    assert!(d == h);
+    assert!(rest.is_empty());
+    let mut r = Rd::new(&b);
+    let d = must_ok!(Icmpv4Header::read(&mut r));
+    assert!(d == h);
+    assert!(r.exact());
+}
+
+pub fn icmpv4_value_write() {
+    let h = icmpv4_header();
+    let hl = h.header_len();
+    witness!(hl == 20, "timestamp");
+    witness!(hl == 8, "short");
+    let b = h.to_bytes();
+    let mut w = Cap::<24>::new();
+    must_ok!(h.write(&mut w));
+    assert!(!w.overflow);
+    assert!(w.bytes() == &b[..]);
+    // TransportHeader wrapper: same bytes, same length
+    let t = TransportHeader::Icmpv4(h.clone());
+    assert!(t.header_len() == hl);
+    let mut w = Cap::<24>::new();
+    must_ok!(t.write(&mut w));
+    assert!(!w.overflow);
+    assert!(w.bytes() == &b[..]);
+}
+
+/// bits of byte `i` of an accepted ICMPv4 header that survive decode -> encode.
+/// Cleared bits are the fields RFC 792 marks "unused" for the typed messages; `Icmpv4Type`
+/// documents that "the `unused` part is not stored and dropped". Unknown (type, code) pairs,
+/// echo, redirect and timestamp messages keep every bit.
+fn icmpv4_mask(t: u8, c: u8, i: usize) -> u8 {
+    if i < 4 || i >= 8 {
+        return 0xff; // type, code, checksum; timestamps
+    }
+    match (t, c) {
+        // RFC 1191 4: destination unreachable / fragmentation needed = unused(16) next-hop MTU(16)
+        (3, 4) => {
+            if i < 6 {
+                0
+            } else {
+                0xff
+            }
+        }
+        // RFC 792: destination unreachable (other codes): bytes 4..8 unused
+        (3, 0..=15) => 0,
+        // RFC 792: time exceeded: bytes 4..8 unused
+        (11, 0..=1) => 0,
+        // RFC 792: parameter problem code 0 = pointer(8) unused(24)
+        (12, 0) => {
+            if i == 4 {
+                0xff
+            } else {
+                0
+            }
+        }
+        // RFC 1108 / RFC 1122 codes 1, 2: no pointer, bytes 4..8 unused
+        (12, 1..=2) => 0,
+        _ => 0xff,
+    }
+}
+
+pub fn icmpv4_bytes() {
+    const N: usize = 24;
+    let buf: [u8; N] = any();
+    let len = any_le(N);
+    let b = &buf[..len];
+    match Icmpv4Header::from_slice(b) {
+        Ok((h, rest)) => {
+            witness!(true, "accepted");
+            witness!(!rest.is_empty(), "accepted_with_rest");
+            let hl = h.header_len();
+            witness!(hl == 20, "timestamp");
+            witness!(b[0] == 3 && b[1] == 4 && b[4] != 0, "unused_bits_set");
+            witness!(matches!(h.icmp_type, Icmpv4Type::Unknown { .. }), "unknown");
+            assert!(hl <= len && rest.len() == len - hl);
+            assert!(rest.as_ptr() == b[hl..].as_ptr());
+            let e = h.to_bytes();
+            assert!(e.len() == hl);
+            let mut i = 0;
+            while i < hl {
+                assert!(e[i] == b[i] & icmpv4_mask(b[0], b[1], i));
+                i += 1;
+            }
+            let (h2, rest2) = must_ok!(Icmpv4Header::from_slice(&e));
+            assert!(h2 == h);
+            assert!(rest2.is_empty());
+        }
+        Err(e) => {
+            core::mem::forget(e);
+            witness!(true, "rejected");
+        }
+    }
+}
+
+// ------------------------------------------------------------------------------------------
+// ICMPv6
+// ------------------------------------------------------------------------------------------
+
+/// (type, code) pairs with a typed `Icmpv6Type` variant: RFC 4443 (1: codes 0..=6 incl. RFC 4443
+/// 3.1 codes 5, 6; 2; 3: codes 0, 1; 4: codes 0..=2, RFC 7112 code 3, RFC 8754 code 4, RFC 8883
+/// codes 5..=10; 128; 129) and RFC 4861 (133..=137, "ICMP Code 0")
+fn icmpv6_typed(t: u8, c: u8) -> bool {
+    match t {
+        1 => c <= 6,
+        2 => c == 0,
+        3 => c <= 1,
+        4 => c <= 10,
+        128 | 129 => c == 0,
+        133..=137 => c == 0,
+        _ => false,
+    }
+}
+
+fn icmpv6_type() -> Icmpv6Type {
+    use icmpv6::*;
+    use Icmpv6Type::*;
+    let k: u8 = any();
+    assume(k < 12);
+    match k {
+        0 => {
+            let t: u8 = any();
+            let c: u8 = any();
+            assume(!icmpv6_typed(t, c));
+            Unknown { type_u8: t, code_u8: c, bytes5to8: any() }
+        }
+        1 => {
+            use DestUnreachableCode::*;
+            let c: u8 = any();
+            assume(c < 7);
+            DestinationUnreachable(match c {
+                0 => NoRoute,
+                1 => Prohibited,
+                2 => BeyondScope,
+                3 => Address,
+                4 => Port,
+                5 => SourceAddressFailedPolicy,
+                _ => RejectRoute,
+            })
+        }
+        2 => PacketTooBig { mtu: any() },
+        3 => TimeExceeded(if any_bool() {
+            TimeExceededCode::HopLimitExceeded
+        } else {
+            TimeExceededCode::FragmentReassemblyTimeExceeded
+        }),
+        4 => {
+            use ParameterProblemCode::*;
+            let c: u8 = any();
+            assume(c < 11);
+            ParameterProblem(ParameterProblemHeader {
+                code: match c {
+                    0 => ErroneousHeaderField,
+                    1 => UnrecognizedNextHeader,
+                    2 => UnrecognizedIpv6Option,
+                    3 => Ipv6FirstFragmentIncompleteHeaderChain,
+                    4 => SrUpperLayerHeaderError,
+                    5 => UnrecognizedNextHeaderByIntermediateNode,
+                    6 => ExtensionHeaderTooBig,
+                    7 => ExtensionHeaderChainTooLong,
+                    8 => TooManyExtensionHeaders,
+                    9 => TooManyOptionsInExtensionHeader,
+                    _ => OptionTooBig,
+                },
+                pointer: any(),
+            })
+        }
+        5 => EchoRequest(IcmpEchoHeader { id: any(), seq: any() }),
+        6 => EchoReply(IcmpEchoHeader { id: any(), seq: any() }),
+        7 => RouterSolicitation,
+        8 => RouterAdvertisement(RouterAdvertisementHeader {
+            cur_hop_limit: any(),
+            managed_address_config: any_bool(),
+            other_config: any_bool(),
+            router_lifetime: any(),
+        }),
+        9 => NeighborSolicitation,
+        10 => NeighborAdvertisement(NeighborAdvertisementHeader {
+            router: any_bool(),
+            solicited: any_bool(),
+            r#override: any_bool(),
+        }),
+        _ => Redirect,
+    }
+}
+
+fn icmpv6_header() -> Icmpv6Header {
+    Icmpv6Header { icmp_type: icmpv6_type(), checksum: any() }
+}
+
+pub fn icmpv6_value() {
+    let h = icmpv6_header();
+    let hl = h.header_len();
+    witness!(matches!(h.icmp_type, Icmpv6Type::Unknown { .. }), "unknown");
+    witness!(matches!(h.icmp_type, Icmpv6Type::Unknown { type_u8: 1, .. }), "unknown_code_of_known_type");
+    witness!(matches!(h.icmp_type, Icmpv6Type::NeighborAdvertisement(_)), "neighbor_advertisement");
+    witness!(matches!(h.icmp_type, Icmpv6Type::Redirect), "redirect");
+    let b = h.to_bytes();
+    assert!(b.len() == hl);
+    assert!(hl == 8 && hl == h.icmp_type.header_len());
+    // the type/code accessors announce what was serialised
+    assert!(b[0] == h.icmp_type.type_u8() && b[1] == h.icmp_type.code_u8());
+    let (d, rest) = must_ok!(Icmpv6Header::from_slice(&b));
+    assert!(d == h);
+    assert!(rest.is_empty());
+    let mut r = Rd::new(&b);
+    let d = must_ok!(Icmpv6Header::read(&mut r));
+    assert!(d == h);
+    assert!(r.exact());
+}
+
+pub fn icmpv6_value_write() {
+    let h = icmpv6_header();
+    let hl = h.header_len();
+    witness!(matches!(h.icmp_type, Icmpv6Type::RouterAdvertisement(_)), "router_advertisement");
+    let b = h.to_bytes();
+    let mut w = Cap::<12>::new();
+    must_ok!(h.write(&mut w));
+    assert!(!w.overflow);
+    assert!(w.bytes() == &b[..]);
+    let t = TransportHeader::Icmpv6(h.clone());
+    assert!(t.header_len() == hl);
+    let mut w = Cap::<12>::new();
+    must_ok!(t.write(&mut w));
+    assert!(!w.overflow);
+    assert!(w.bytes() == &b[..]);
+}
+
+/// bits of byte `i` (< 8) of an ICMPv6 header that survive decode -> encode
+fn icmpv6_mask(t: u8, c: u8, i: usize) -> u8 {
+    if i < 4 {
+        return 0xff; // type, code, checksum
+    }
+    match (t, c) {
+        // RFC 4443 3.1: destination unreachable: bytes 4..8 "Unused"
+        (1, 0..=6) => 0,
+        // RFC 4443 3.3: time exceeded: bytes 4..8 "Unused"
+        (3, 0..=1) => 0,
+        // RFC 4861 4.1 router solicitation, 4.3 neighbor solicitation, 4.5 redirect: "Reserved" word
+        (133, 0) | (135, 0) | (137, 0) => 0,
+        // RFC 4861 4.2 router advertisement: cur hop limit(8) M(1) O(1) Reserved(6) router lifetime(16);
+        // RouterAdvertisementHeader stores M and O only
+        (134, 0) => {
+            if i == 5 {
+                0xc0
+            } else {
+                0xff
+            }
+        }
+        // RFC 4861 4.4 neighbor advertisement: R(1) S(1) O(1) Reserved(29)
+        (136, 0) => {
+            if i == 4 {
+                0xe0
+            } else {
+                0
+            }
+        }
+        // packet too big (MTU), parameter problem (pointer), echo (id, seq), unknown: all bits kept
+        _ => 0xff,
+    }
+}
+
+pub fn icmpv6_bytes() {
+    const N: usize = 12;
+    let buf: [u8; N] = any();
+    let len = any_le(N);
+    let b = &buf[..len];
+    match Icmpv6Header::from_slice(b) {
+        Ok((h, rest)) => {
+            witness!(true, "accepted");
+            witness!(!rest.is_empty(), "accepted_with_rest");
+            witness!(b[0] == 136 && b[1] == 0 && b[5] != 0 && b[4] & 0x1f != 0, "reserved_bits_set");
+            witness!(matches!(h.icmp_type, Icmpv6Type::Unknown { .. }), "unknown");
+            let hl = h.header_len();
+            assert!(hl == 8 && hl <= len && rest.len() == len - hl);
+            assert!(rest.as_ptr() == b[hl..].as_ptr());
+            let e = h.to_bytes();
+            assert!(e.len() == hl);
+            let mut i = 0;
+            while i < 8 {
+                assert!(e[i] == b[i] & icmpv6_mask(b[0], b[1], i));
+                i += 1;
+            }
+            let (h2, rest2) = must_ok!(Icmpv6Header::from_slice(&e));
+            assert!(h2 == h);
+            assert!(rest2.is_empty());
+        }
+        Err(e) => {
+            core::mem::forget(e);
+            witness!(true, "rejected");
+        }
+    }
+}
+
+/// the 4 byte NDP sub headers carried in bytes 5..8 of the ICMPv6 header
+pub fn icmpv6_ndp_headers_rt() {
+    use icmpv6::*;
+    let ra = RouterAdvertisementHeader {
+        cur_hop_limit: any(),
+        managed_address_config: any_bool(),
+        other_config: any_bool(),
+        router_lifetime: any(),
+    };
+    assert!(RouterAdvertisementHeader::from_bytes(ra.to_bytes()) == ra);
+    let na = NeighborAdvertisementHeader { router: any_bool(), solicited: any_bool(), r#override: any_bool() };
+    assert!(NeighborAdvertisementHeader::from_bytes(na.to_bytes()) == na);
+    let raw: [u8; 4] = any();
+    // RFC 4861 4.2: byte 1 = M O Reserved(6)
+    let e = RouterAdvertisementHeader::from_bytes(raw).to_bytes();
+    assert!(e == [raw[0], raw[1] & 0xc0, raw[2], raw[3]]);
+    // RFC 4861 4.4: R S O Reserved(29)
+    let e = NeighborAdvertisementHeader::from_bytes(raw).to_bytes();
+    assert!(e == [raw[0] & 0xe0, 0, 0, 0]);
+    // NDP option header: type(8) length(8)
+    let oh = NdpOptionHeader { option_type: NdpOptionType(any()), length_units: any() };
+    let ob = oh.to_bytes();
+    assert!(ob.len() == NdpOptionHeader::LEN);
+    assert!(NdpOptionHeader::from_bytes(ob) == oh);
+    let (d, rest) = must_ok!(NdpOptionHeader::from_slice(&ob));
+    assert!(d == oh && rest.is_empty());
+    let raw2: [u8; 2] = any();
+    assert!(NdpOptionHeader::from_bytes(raw2).to_bytes() == raw2);
+}
+
+/// fixed parts of the NDP messages that follow the ICMPv6 header (`Icmpv6Payload`)
+pub fn icmpv6_payload_value() {
+    use core::net::Ipv6Addr;
+    use icmpv6::*;
+    let k: u8 = any();
+    assume(k < 5);
+    let a: [u8; 16] = any();
+    let c: [u8; 16] = any();
+    let (ty, p) = match k {
+        0 => (Icmpv6Type::RouterSolicitation, Icmpv6Payload::RouterSolicitation(RouterSolicitationPayload)),
+        1 => (
+            Icmpv6Type::RouterAdvertisement(RouterAdvertisementHeader {
+                cur_hop_limit: 0,
+                managed_address_config: false,
+                other_config: false,
+                router_lifetime: 0,
+            }),
+            Icmpv6Payload::RouterAdvertisement(RouterAdvertisementPayload { reachable_time: any(), retrans_timer: any() }),
+        ),
+        2 => (
+            Icmpv6Type::NeighborSolicitation,
+            Icmpv6Payload::NeighborSolicitation(NeighborSolicitationPayload { target_address: Ipv6Addr::from(a) }),
+        ),
+        3 => (
+            Icmpv6Type::NeighborAdvertisement(NeighborAdvertisementHeader { router: false, solicited: false, r#override: false }),
+            Icmpv6Payload::NeighborAdvertisement(NeighborAdvertisementPayload { target_address: Ipv6Addr::from(a) }),
+        ),
+        _ => (
+            Icmpv6Type::Redirect,
+            Icmpv6Payload::Redirect(RedirectPayload { target_address: Ipv6Addr::from(a), destination_address: Ipv6Addr::from(c) }),
+        ),
+    };
+    witness!(k == 4, "redirect");
+    witness!(k == 0, "router_solicitation");
+    let mut w = Cap::<40>::new();
+    must_ok!(p.write(&mut w));
+    assert!(!w.overflow);
+    assert!(w.len == p.len());
+    assert!(p.is_empty() == (w.len == 0));
+    // to_bytes of the member == write of the wrapper
+    match &p {
+        Icmpv6Payload::RouterSolicitation(v) => assert!(w.bytes() == &v.to_bytes()[..]),
+        Icmpv6Payload::RouterAdvertisement(v) => assert!(w.bytes() == &v.to_bytes()[..]),
+        Icmpv6Payload::NeighborSolicitation(v) => assert!(w.bytes() == &v.to_bytes()[..]),
+        Icmpv6Payload::NeighborAdvertisement(v) => assert!(w.bytes() == &v.to_bytes()[..]),
+        Icmpv6Payload::Redirect(v) => assert!(w.bytes() == &v.to_bytes()[..]),
+        _ => {}
+    }
+    let r = must_ok!(ty.payload_from_slice(w.bytes()));
+    match r {
+        Some((d, rest)) => {
+            assert!(d == p);
+            assert!(rest.is_empty());
+        }
+        None => panic!("C08: NDP payload must decode"),
+    }
+}
+
+pub fn icmpv6_payload_bytes() {
+    use icmpv6::*;
+    const N: usize = 36;
+    let buf: [u8; N] = any();
+    let len = any_le(N);
+    let b = &buf[..len];
+    let k: u8 = any();
+    assume(k < 5);
+    let ty = match k {
+        0 => Icmpv6Type::RouterSolicitation,
+        1 => Icmpv6Type::RouterAdvertisement(RouterAdvertisementHeader {
+            cur_hop_limit: 0,
+            managed_address_config: false,
+            other_config: false,
+            router_lifetime: 0,
+        }),
+        2 => Icmpv6Type::NeighborSolicitation,
+        3 => Icmpv6Type::NeighborAdvertisement(NeighborAdvertisementHeader { router: false, solicited: false, r#override: false }),
+        _ => Icmpv6Type::Redirect,
+    };
+    match ty.payload_from_slice(b) {
+        Ok(Some((p, rest))) => {
+            witness!(true, "accepted");
+            witness!(!rest.is_empty(), "accepted_with_rest");
+            witness!(k == 4, "redirect");
+            let pl = p.len();
+            assert!(pl <= len && rest.len() == len - pl);
+            assert!(rest.as_ptr() == b[pl..].as_ptr());
+            // RFC 4861 4.1-4.5: reachable time, retrans timer, target / destination address:
+            // no reserved bit in the fixed parts after the ICMPv6 header
+            let mut w = Cap::<40>::new();
+            must_ok!(p.write(&mut w));
+            assert!(!w.overflow);
+            assert!(w.bytes() == &b[..pl]);
+            match must_ok!(ty.payload_from_slice(w.bytes())) {
+                Some((p2, rest2)) => {
+                    assert!(p2 == p);
+                    assert!(rest2.is_empty());
+                }
+                None => panic!("C08: NDP payload must decode"),
+            }
+        }
+        Ok(None) => panic!("C08: NDP types have a typed payload"),
+        Err(e) => {
+            core::mem::forget(e);
+            witness!(true, "rejected");
+        }
+    }
+}
+
+// ------------------------------------------------------------------------------------------
+// NDP prefix information option
+// ------------------------------------------------------------------------------------------
+
+pub fn prefix_info_value() {
+    use icmpv6::PrefixInformation;
+    let v = PrefixInformation {
+        prefix_length: any(),
+        on_link: any_bool(),
+        autonomous_address_configuration: any_bool(),
+        valid_lifetime: any(),
+        preferred_lifetime: any(),
+        prefix: any(),
+    };
+    let b = v.to_bytes();
+    assert!(b.len() == PrefixInformation::LEN && b.len() == 32);
+    let d = must_ok!(PrefixInformation::from_bytes(b));
+    assert!(d == v);
+    // from_slice takes exactly the option: nothing can remain
+    let d = must_ok!(PrefixInformation::from_slice(&b));
+    assert!(d == v);
+}
+
+pub fn prefix_info_bytes() {
+    use icmpv6::PrefixInformation;
+    const N: usize = 34;
+    let buf: [u8; N] = any();
+    let len = any_le(N);
+    let b = &buf[..len];
+    match PrefixInformation::from_slice(b) {
+        Ok(v) => {
+            witness!(true, "accepted");
+            witness!(b[3] & 0x3f != 0 && b[12] != 0 && b[15] != 0, "reserved_bits_set");
+            assert!(len == 32);
+            let e = v.to_bytes();
+            let mut i = 0;
+            while i < 32 {
+                // RFC 4861 4.6.2: byte 3 = L(1) A(1) Reserved1(6); bytes 12..16 = Reserved2;
+                // both "MUST be initialized to zero by the sender"
+                let m: u8 = match i {
+                    3 => 0xc0,
+                    12..=15 => 0,
+                    _ => 0xff,
+                };
+                assert!(e[i] == b[i] & m);
+                i += 1;
+            }
+            let v2 = must_ok!(PrefixInformation::from_slice(&e));
+            assert!(v2 == v);
+        }
+        Err(e) => {
+            core::mem::forget(e);
+            witness!(true, "rejected");
+        }
+    }
+}
+
+// ------------------------------------------------------------------------------------------
+// IGMP
+// ------------------------------------------------------------------------------------------
+
+fn igmp_type() -> IgmpType {
+    use igmp::*;
+    let k: u8 = any();
+    assume(k < 7);
+    match k {
+        0 => IgmpType::MembershipQuery(MembershipQueryType { max_response_time: any(), group_address: GroupAddress::new(any()) }),
+        1 => IgmpType::MembershipQueryWithSources(MembershipQueryWithSourcesHeader {
+            max_response_code: MaxResponseCode(any()),
+            group_address: GroupAddress::new(any()),
+            raw_byte_8: any(),
+            qqic: any(),
+            num_of_sources: any(),
+        }),
+        2 => IgmpType::MembershipReportV1(MembershipReportV1Type { group_address: GroupAddress::new(any()) }),
+        3 => IgmpType::MembershipReportV2(MembershipReportV2Type { group_address: GroupAddress::new(any()) }),
+        4 => IgmpType::MembershipReportV3(MembershipReportV3Header { flags: any(), num_of_records: any() }),
+        5 => IgmpType::LeaveGroup(LeaveGroupType { group_address: GroupAddress::new(any()) }),
+        _ => {
+            // RFC 1112 / 2236 / 9776 type numbers with a typed variant: 0x11, 0x12, 0x16, 0x17, 0x22
+            let t: u8 = any();
+            assume(t != 0x11 && t != 0x12 && t != 0x16 && t != 0x17 && t != 0x22);
+            IgmpType::Unknown(UnknownHeader { igmp_type: t, raw_byte_1: any(), raw_bytes_4_7: any() })
+        }
+    }
+}
+
+pub fn igmp_value() {
+    let h = IgmpHeader { igmp_type: igmp_type(), checksum: any() };
+    let hl = h.header_len();
+    witness!(hl == 12, "query_with_sources");
+    witness!(matches!(h.igmp_type, IgmpType::MembershipQuery(_)), "query");
+    witness!(matches!(h.igmp_type, IgmpType::Unknown(_)), "unknown");
+    witness!(matches!(h.igmp_type, IgmpType::MembershipReportV3(_)), "report_v3");
+    let b = h.to_bytes();
+    assert!(b.len() == hl);
+    let (d, rest) = must_ok!(IgmpHeader::from_slice(&b));
+    assert!(d == h);
+    assert!(rest.is_empty());
+}
+
+/// surviving bits of byte `i` of an accepted IGMP header of type `t`
+fn igmp_mask(t: u8, i: usize) -> u8 {
+    if i != 1 {
+        return 0xff;
+    }
+    match t {
+        // RFC 1112 App. I (v1 report): byte 1 "Unused"; RFC 2236 2.2: Max Resp Time "is meaningful
+        // only in Membership Query messages ... in all other messages it is set to zero by the
+        // sender" (v2 report 0x16, leave 0x17); RFC 9776 4.2 (v3 report 0x22): byte 1 "Reserved"
+        0x12 | 0x16 | 0x17 | 0x22 => 0,
+        // queries (max resp time / code) and unknown types keep the byte
+        _ => 0xff,
+    }
+}
+
+pub fn igmp_bytes() {
+    const N: usize = 16;
+    let buf: [u8; N] = any();
+    let len = any_le(N);
+    let b = &buf[..len];
+    match IgmpHeader::from_slice(b) {
+        Ok((h, rest)) => {
+            witness!(true, "accepted");
+            witness!(!rest.is_empty(), "accepted_with_rest");
+            witness!(b[0] == 0x22 && b[1] != 0, "reserved_byte_set");
+            let hl = h.header_len();
+            witness!(hl == 12, "query_with_sources");
+            witness!(b[0] == 0x11 && hl == 8, "query_v2");
+            assert!(hl <= len && rest.len() == len - hl);
+            assert!(rest.as_ptr() == b[hl..].as_ptr());
+            let e = h.to_bytes();
+            assert!(e.len() == hl);
+            let mut i = 0;
+            while i < hl {
+                assert!(e[i] == b[i] & igmp_mask(b[0], i));
+                i += 1;
+            }
+            let (h2, rest2) = must_ok!(IgmpHeader::from_slice(&e));
+            assert!(h2 == h);
+            assert!(rest2.is_empty());
+        }
+        Err(e) => {
+            core::mem::forget(e);
+            witness!(true, "rejected");
+        }
+    }
+}
+
+pub fn igmp_record_value() {
+    use igmp::*;
+    let v = ReportGroupRecordV3Header {
+        record_type: ReportGroupRecordType(any()),
+        aux_data_len: any(),
+        num_of_sources: any(),
+        multicast_address: any(),
+    };
+    let b = v.to_bytes();
+    assert!(b.len() == ReportGroupRecordV3Header::LEN && b.len() == 8);
+    let (d, rest) = must_ok!(ReportGroupRecordV3Header::from_slice(&b));
+    assert!(d == v);
+    assert!(rest.is_empty());
+}
+
+pub fn igmp_record_bytes() {
+    use igmp::*;
+    const N: usize = 12;
+    let buf: [u8; N] = any();
+    let len = any_le(N);
+    let b = &buf[..len];
+    match ReportGroupRecordV3Header::from_slice(b) {
+        Ok((v, rest)) => {
+            witness!(true, "accepted");
+            witness!(!rest.is_empty(), "accepted_with_rest");
+            assert!(len >= 8 && rest.len() == len - 8);
+            assert!(rest.as_ptr() == b[8..].as_ptr());
+            // RFC 9776 4.2.x group record: type, aux data len, number of sources, multicast address
+            let e = v.to_bytes();
+            assert!(e[..] == b[..8]);
+            let (v2, rest2) = must_ok!(ReportGroupRecordV3Header::from_slice(&e));
+            assert!(v2 == v);
+            assert!(rest2.is_empty());
+        }
+        Err(e) => {
+            core::mem::forget(e);
+            witness!(true, "rejected");
+        }
+    }
+}
+
+
+// ------------------------------------------------------------------------------------------
+// IP authentication header (RFC 4302)
+// ------------------------------------------------------------------------------------------
+//
+// `IpAuthHeader::to_bytes` always runs a fixed 1016 trip `extend` loop over the whole ICV buffer
+// (needs unwind >= 1018) and costs minutes; `write` is cheap. Quick tier: write <-> from_slice /
+// read with a symbolic ICV length; thorough tier: to_bytes against write, one harness per ICV
+// length (concrete, so that no symbolic loop is unrolled 1018 times).
+
+/// ICV of 0, 4 or 8 bytes (acceptance set of `IpAuthHeader::new` below the bound); optionally the
+/// ICV is replaced afterwards (possibly by a shorter one: stale bytes stay in the buffer)
+fn auth_header() -> IpAuthHeader {
+    let k0 = any_le(2);
+    let data: [u8; 8] = any();
+    let mut h = must_ok!(IpAuthHeader::new(IpNumber(any()), any(), any(), &data[..4 * k0]));
+    if any_bool() {
+        let k1 = any_le(2);
+        let data: [u8; 8] = any();
+        must_ok!(h.set_raw_icv(&data[..4 * k1]));
+        witness!(k1 < k0, "shrunk");
+    }
+    h
+}
+
+/// concrete ICV length of K words, after having held 8 bytes
+fn auth_header_k<const K: usize>() -> IpAuthHeader {
+    let data: [u8; 8] = any();
+    let mut h = must_ok!(IpAuthHeader::new(IpNumber(any()), any(), any(), &data));
+    let data: [u8; 8] = any();
+    must_ok!(h.set_raw_icv(&data[..4 * K]));
+    h
+}
+
+pub fn auth_value() {
+    let h = auth_header();
+    let hl = h.header_len();
+    witness!(hl == 12, "icv_0");
+    witness!(hl == 20, "icv_8");
+    assert!(hl == 12 + h.raw_icv().len());
+    let mut w = Cap::<24>::new();
+    must_ok!(h.write(&mut w));
+    assert!(!w.overflow);
+    assert!(w.len == hl);
+    let (d, rest) = must_ok!(IpAuthHeader::from_slice(w.bytes()));
+    assert!(d == h);
+    assert!(rest.is_empty());
+    let mut r = Rd::new(w.bytes());
+    let d = must_ok!(IpAuthHeader::read(&mut r));
+    assert!(d == h);
+    assert!(r.exact());
+}
+
+/// RFC 4302 2: next header, payload len, RESERVED(16) "MUST be set to zero by the sender", SPI,
+/// sequence number, ICV. `IpAuthHeader` has no field for the reserved bytes 2 and 3.
+fn auth_mask(i: usize) -> u8 {
+    if i == 2 || i == 3 {
+        0
+    } else {
+        0xff
+    }
+}
+
+pub fn auth_bytes() {
+    const N: usize = 24;
+    let buf: [u8; N] = any();
+    let len = any_le(N);
+    let b = &buf[..len];
+    match IpAuthHeader::from_slice(b) {
+        Ok((h, rest)) => {
+            witness!(true, "accepted");
+            witness!(!rest.is_empty(), "accepted_with_rest");
+            witness!(b[2] != 0 && b[3] != 0, "reserved_bits_set");
+            let hl = h.header_len();
+            witness!(hl == 24, "icv_12");
+            witness!(hl == 12, "icv_0");
+            assert!(hl <= len && rest.len() == len - hl);
+            assert!(rest.as_ptr() == b[hl..].as_ptr());
+            let mut w = Cap::<N>::new();
+            must_ok!(h.write(&mut w));
+            assert!(!w.overflow);
+            assert!(w.len == hl);
+            let mut i = 0;
+            while i < hl {
+                assert!(w.buf[i] == b[i] & auth_mask(i));
+                i += 1;
+            }
+            let (h2, rest2) = must_ok!(IpAuthHeader::from_slice(w.bytes()));
+            assert!(h2 == h);
+            assert!(rest2.is_empty());
+        }
+        Err(e) => {
+            core::mem::forget(e);
+            witness!(true, "rejected");
+        }
+    }
+}
+
+/// thorough: to_bytes == write and length == header_len (decoding the bytes of `write` is decided
+/// by auth_value, so from_slice(to_bytes(v)) == v follows)
+fn auth_to_bytes_k<const K: usize, const L: usize>() {
+    let h = auth_header_k::<K>();
+    assert!(h.header_len() == L);
+    let bv = h.to_bytes();
+    assert!(bv.len() == L);
+    let mut b = [0u8; L];
+    b.copy_from_slice(&bv);
+    let mut w = Cap::<L>::new();
+    must_ok!(h.write(&mut w));
+    assert!(!w.overflow);
+    assert!(w.len == L);
+    assert!(w.buf == b);
+}
+pub fn auth_to_bytes_0() {
+    auth_to_bytes_k::<0, 12>()
+}
+pub fn auth_to_bytes_1() {
+    auth_to_bytes_k::<1, 16>()
+}
+
+// Direction 2 through `to_bytes` needs no harness of its own: a decoded header is built by
+// `IpAuthHeader::new` (the value set of auth_to_bytes_*), for which to_bytes == write, and
+// write(decode(b)) == b & mask is decided by auth_bytes.
+
+// ------------------------------------------------------------------------------------------
+// generic IPv6 extension header (hop-by-hop, destination options, routing, ...; RFC 8200 4)
+// ------------------------------------------------------------------------------------------
+//
+// `Ipv6RawExtHeader::to_bytes` copies the payload into an `ArrayVec<u8, 2048>`; with a symbolic
+// payload length CBMC runs out of memory (measured), with a concrete one it takes seconds. So:
+// write <-> from_slice / read with symbolic length field 0..=2, to_bytes once per length.
+
+/// payload of 6, 14 or 22 bytes (length field 0..=2), optionally replaced afterwards
+fn raw_ext() -> Ipv6RawExtHeader {
+    let k0 = any_le(2);
+    let data: [u8; 22] = any();
+    let mut h = must_ok!(Ipv6RawExtHeader::new_raw(IpNumber(any()), &data[..6 + 8 * k0]));
+    if any_bool() {
+        let k1 = any_le(2);
+        let data: [u8; 22] = any();
+        must_ok!(h.set_payload(&data[..6 + 8 * k1]));
+        witness!(k1 < k0, "shrunk");
+    }
+    h
+}
+
+/// concrete length field K, after having held 22 bytes
+fn raw_ext_k<const K: usize>() -> Ipv6RawExtHeader {
+    let data: [u8; 22] = any();
+    let mut h = must_ok!(Ipv6RawExtHeader::new_raw(IpNumber(any()), &data));
+    let data: [u8; 22] = any();
+    must_ok!(h.set_payload(&data[..6 + 8 * K]));
+    h
+}
+
+pub fn raw_ext_value() {
+    let h = raw_ext();
+    let hl = h.header_len();
+    witness!(hl == 8, "len_0");
+    witness!(hl == 24, "len_2");
+    assert!(hl == 2 + h.payload().len());
+    let mut w = Cap::<24>::new();
+    must_ok!(h.write(&mut w));
+    assert!(!w.overflow);
+    assert!(w.len == hl);
+    let (d, rest) = must_ok!(Ipv6RawExtHeader::from_slice(w.bytes()));
+    assert!(d == h);
+    assert!(rest.is_empty());
+}
+
+pub fn raw_ext_value_read() {
+    let h = raw_ext();
+    let mut w = Cap::<24>::new();
+    must_ok!(h.write(&mut w));
+    assert!(!w.overflow);
+    let mut r = Rd::new(w.bytes());
+    let d = must_ok!(Ipv6RawExtHeader::read(&mut r));
+    assert!(d == h);
+    assert!(r.exact());
+}
+
+fn raw_ext_to_bytes_k<const K: usize, const L: usize>() {
+    let h = raw_ext_k::<K>();
+    assert!(h.header_len() == L);
+    let bv = h.to_bytes();
+    assert!(bv.len() == L);
+    let mut b = [0u8; L];
+    b.copy_from_slice(&bv);
+    let mut w = Cap::<L>::new();
+    must_ok!(h.write(&mut w));
+    assert!(!w.overflow);
+    assert!(w.len == L);
+    assert!(w.buf == b);
+    let (d, rest) = must_ok!(Ipv6RawExtHeader::from_slice(&b));
+    assert!(d == h);
+    assert!(rest.is_empty());
+}
+pub fn raw_ext_to_bytes_0() {
+    raw_ext_to_bytes_k::<0, 8>()
+}
+pub fn raw_ext_to_bytes_1() {
+    raw_ext_to_bytes_k::<1, 16>()
+}
+pub fn raw_ext_to_bytes_2() {
+    raw_ext_to_bytes_k::<2, 24>()
+}
+
+pub fn raw_ext_bytes() {
+    const N: usize = 26;
+    let buf: [u8; N] = any();
+    let len = any_le(N);
+    let b = &buf[..len];
+    match Ipv6RawExtHeader::from_slice(b) {
+        Ok((h, rest)) => {
+            witness!(true, "accepted");
+            witness!(!rest.is_empty(), "accepted_with_rest");
+            let hl = h.header_len();
+            witness!(hl == 24, "len_2");
+            assert!(hl <= len && rest.len() == len - hl);
+            assert!(rest.as_ptr() == b[hl..].as_ptr());
+            // RFC 8200 4.3 / 4.4 / 4.6: next header, hdr ext len, then type specific data kept raw
+            let mut w = Cap::<N>::new();
+            must_ok!(h.write(&mut w));
+            assert!(!w.overflow);
+            assert!(w.len == hl);
+            assert!(w.bytes() == &b[..hl]);
+            let (h2, rest2) = must_ok!(Ipv6RawExtHeader::from_slice(w.bytes()));
+            assert!(h2 == h);
+            assert!(rest2.is_empty());
+        }
+        Err(e) => {
+            core::mem::forget(e);
+            witness!(true, "rejected");
+        }
+    }
+}
+
+/// direction 2 through to_bytes: length byte concrete, buffer of exactly L + 2 bytes
+fn raw_ext_bytes_to_bytes_k<const K: u8, const L: usize, const N: usize>() {
+    let mut buf: [u8; N] = any();
+    buf[1] = K;
+    let (h, rest) = must_ok!(Ipv6RawExtHeader::from_slice(&buf));
+    assert!(N == L + 2);
+    assert!(rest.len() == 2);
+    let ev = h.to_bytes();
+    assert!(ev.len() == L);
+    let mut e = [0u8; L];
+    e.copy_from_slice(&ev);
+    assert!(e[..] == buf[..L]);
+    let (h2, rest2) = must_ok!(Ipv6RawExtHeader::from_slice(&e));
+    assert!(h2 == h);
+    assert!(rest2.is_empty());
+}
+pub fn raw_ext_bytes_to_bytes_0() {
+    raw_ext_bytes_to_bytes_k::<0, 8, 10>()
+}
+pub fn raw_ext_bytes_to_bytes_2() {
+    raw_ext_bytes_to_bytes_k::<2, 24, 26>()
+}
+
+// ------------------------------------------------------------------------------------------
+// IPv4 extension headers (= optional authentication header)
+// ------------------------------------------------------------------------------------------
+
+/// IANA protocol numbers of the extension headers `Ipv6Extensions` decodes: 0 hop-by-hop,
+/// 43 routing, 44 fragment, 51 authentication, 60 destination options
+fn is_v6_ext(n: u8) -> bool {
+    n == 0 || n == 43 || n == 44 || n == 51 || n == 60
+}
+
+pub fn ipv4_exts_none() {
+    let v = Ipv4Extensions { auth: None };
+    // consistent start number: without an authentication header the protocol is not 51
+    let start: u8 = any();
+    assume(start != 51);
+    assert!(v.header_len() == 0);
+    assert!(v.is_empty());
+    let mut w = Cap::<4>::new();
+    must_ok!(v.write(&mut w, IpNumber(start)));
+    assert!(!w.overflow && w.len == 0);
+    let trail: [u8; 3] = any();
+    let (d, next, rest) = must_ok!(Ipv4Extensions::from_slice(IpNumber(start), &trail[..0]));
+    assert!(d == v && next.0 == start && rest.is_empty());
+    let mut r = Rd::new(&trail[..0]);
+    let (d, next) = must_ok!(Ipv4Extensions::read(&mut r, IpNumber(start)));
+    assert!(d == v && next.0 == start && r.exact());
+}
+
+// NOT decided: `Ipv4Extensions::write` with an authentication header present (it goes through
+// `IpAuthHeader::to_bytes`; the harness did not finish within 20 minutes on the shared machine).
+// `IpAuthHeader::to_bytes` itself is decided against `write` by auth_to_bytes_*.
+
+/// decoding the member's own bytes gives the value back (ICV 0/4/8 bytes, symbolic)
+pub fn ipv4_exts_auth_dec() {
+    let a = auth_header();
+    let nh = a.next_header;
+    let v = Ipv4Extensions { auth: Some(a) };
+    let hl = v.header_len();
+    let mut w = Cap::<24>::new();
+    must_ok!(v.auth.as_ref().unwrap().write(&mut w));
+    assert!(!w.overflow && w.len == hl);
+    let (d, next, rest) = must_ok!(Ipv4Extensions::from_slice(IpNumber(51), w.bytes()));
+    assert!(d == v);
+    assert!(next == nh);
+    assert!(rest.is_empty());
+    let mut r = Rd::new(w.bytes());
+    let (d, next) = must_ok!(Ipv4Extensions::read(&mut r, IpNumber(51)));
+    assert!(d == v);
+    assert!(next == nh);
+    assert!(r.exact());
+}
+
+/// direction 2 glue: with start number 51 the extensions decoder accepts exactly what the
+/// authentication header decoder accepts and returns that header, its next header and its rest
+/// (re-encoding the header itself: auth_bytes)
+pub fn ipv4_exts_bytes_auth() {
+    const N: usize = 24;
+    let buf: [u8; N] = any();
+    let len = any_le(N);
+    let b = &buf[..len];
+    match (Ipv4Extensions::from_slice(IpNumber(51), b), IpAuthHeader::from_slice(b)) {
+        (Ok((v, next, rest)), Ok((a, arest))) => {
+            witness!(true, "accepted");
+            witness!(!rest.is_empty(), "accepted_with_rest");
+            assert!(next == a.next_header);
+            assert!(rest.len() == arest.len() && rest.as_ptr() == arest.as_ptr());
+            assert!(v.header_len() == a.header_len());
+            assert!(v.auth == Some(a));
+        }
+        (Err(e1), Err(e2)) => {
+            core::mem::forget(e1);
+            core::mem::forget(e2);
+            witness!(true, "rejected");
+        }
+        (r1, r2) => {
+            core::mem::forget(r1);
+            core::mem::forget(r2);
+            panic!("C08: Ipv4Extensions and IpAuthHeader decoders disagree")
+        }
+    }
+}
+
+// ------------------------------------------------------------------------------------------
+// IPv6 extension headers
+// ------------------------------------------------------------------------------------------
+//
+// What CBMC can do here (all measured): `Ipv6Extensions` is a 9 KB value; the
+// `loop { match next_header }` walks of `from_slice` / `read` are *not* resolved by constant
+// propagation even for a concrete chain, i.e. they are unrolled to the unwind bound with every arm
+// (each arm builds a 2 KB header): ~15 s per unit of unwind per decoder call. `write` resolves
+// its walk for concrete links. `IpAuthHeader::to_bytes` inside `write` needs unwind >= 1018.
+// Hence
+//  * presence of each member and the links are concrete per harness (RFC 8200 4.1 order made by
+//    `set_next_headers`, plus one different order set by hand), each member has its minimal size
+//    (raw headers 8 bytes, authentication header 4 byte ICV), all contents are symbolic; the
+//    protocol after the chain is UDP (17);
+//  * encode and decode are decided in separate harnesses over the same value set:
+//    `*_enc`: `write(v)` == the members' own `write` outputs in link order, length == header_len
+//             (the members' serialisers are decided by the per-type harnesses above);
+//    `*_slice` / `*_read`: decoding exactly those member-wise bytes gives back (v, 17, empty rest)
+//             with unwind 9; byte comparisons are done on 8 byte words to stay below that bound.
+//    Together: decode(write(v)) == v.
+
+fn last_proto() -> IpNumber {
+    IpNumber(17)
+}
+
+fn ipv6_exts_members(hbh: bool, dest: bool, route: bool, fdest: bool, frag: bool, auth: bool) -> Ipv6Extensions {
+    Ipv6Extensions {
+        hop_by_hop_options: if hbh { Some(raw_ext_k::<0>()) } else { None },
+        destination_options: if dest { Some(raw_ext_k::<0>()) } else { None },
+        routing: if route {
+            Some(Ipv6RoutingExtensions {
+                routing: raw_ext_k::<0>(),
+                final_destination_options: if fdest { Some(raw_ext_k::<0>()) } else { None },
+            })
+        } else {
+            None
+        },
+        fragment: if frag { Some(ipv6_frag_header()) } else { None },
+        auth: if auth { Some(auth_header_k::<1>()) } else { None },
+    }
+}
+
+/// the members' own serialisers, RFC 8200 4.1 order (= the order `set_next_headers` links)
+fn ipv6_exts_write_members<const L: usize>(v: &Ipv6Extensions, w: &mut Cap<L>) {
+    if let Some(h) = v.hop_by_hop_options.as_ref() {
+        must_ok!(h.write(w));
+    }
+    if let Some(h) = v.destination_options.as_ref() {
+        must_ok!(h.write(w));
+    }
+    if let Some(r) = v.routing.as_ref() {
+        must_ok!(r.routing.write(w));
+    }
+    if let Some(h) = v.fragment.as_ref() {
+        must_ok!(h.write(w));
+    }
+    if let Some(h) = v.auth.as_ref() {
+        must_ok!(h.write(w));
+    }
+    if let Some(r) = v.routing.as_ref() {
+        if let Some(h) = r.final_destination_options.as_ref() {
+            must_ok!(h.write(w));
+        }
+    }
+}
+
+/// big endian word at offset i (comparison of 8 bytes without a loop)
+fn w64(a: &[u8], i: usize) -> u64 {
+    u64::from_be_bytes([a[i], a[i + 1], a[i + 2], a[i + 3], a[i + 4], a[i + 5], a[i + 6], a[i + 7]])
+}
+
+/// arrays of L = 8 * W bytes are equal (at most 13 words, i.e. loop bound 14 is never needed: unrolled by hand)
+fn words_eq<const L: usize>(a: &[u8; L], b: &[u8; L]) -> bool {
+    let mut ok = true;
+    if L >= 8 {
+        ok &= w64(a, 0) == w64(b, 0);
+    }
+    if L >= 16 {
+        ok &= w64(a, 8) == w64(b, 8);
+    }
+    if L >= 24 {
+        ok &= w64(a, 16) == w64(b, 16);
+    }
+    if L >= 32 {
+        ok &= w64(a, 24) == w64(b, 24);
+    }
+    if L >= 40 {
+        ok &= w64(a, 32) == w64(b, 32);
+    }
+    if L >= 48 {
+        ok &= w64(a, 40) == w64(b, 40);
+    }
+    if L >= 56 {
+        ok &= w64(a, 48) == w64(b, 48);
+    }
+    if L >= 64 {
+        ok &= w64(a, 56) == w64(b, 56);
+    }
+    if L >= 72 {
+        ok &= w64(a, 64) == w64(b, 64);
+    }
+    if L >= 80 {
+        ok &= w64(a, 72) == w64(b, 72);
+    }
+    if L >= 88 {
+        ok &= w64(a, 80) == w64(b, 80);
+    }
+    if L >= 96 {
+        ok &= w64(a, 88) == w64(b, 88);
+    }
+    assert!(L % 8 == 0 && L <= 96);
+    ok
+}
+
+fn ipv6_exts_enc<const L: usize>(hbh: bool, dest: bool, route: bool, fdest: bool, frag: bool, auth: bool) {
+    let mut v = ipv6_exts_members(hbh, dest, route, fdest, frag, auth);
+    let first = v.set_next_headers(last_proto());
+    assert!(v.header_len() == L);
+    let mut w = Cap::<L>::new();
+    must_ok!(v.write(&mut w, first));
+    assert!(!w.overflow);
+    assert!(w.len == L);
+    let mut m = Cap::<L>::new();
+    ipv6_exts_write_members(&v, &mut m);
+    assert!(!m.overflow);
+    assert!(m.len == L);
+    assert!(words_eq(&w.buf, &m.buf));
+}
+
+fn ipv6_exts_dec_slice<const L: usize>(hbh: bool, dest: bool, route: bool, fdest: bool, frag: bool, auth: bool) {
+    let mut v = ipv6_exts_members(hbh, dest, route, fdest, frag, auth);
+    let first = v.set_next_headers(last_proto());
+    let mut m = Cap::<L>::new();
+    ipv6_exts_write_members(&v, &mut m);
+    assert!(!m.overflow && m.len == L);
+    let (d, next, rest) = must_ok!(Ipv6Extensions::from_slice(first, &m.buf));
+    assert!(d == v);
+    assert!(next == last_proto());
+    assert!(rest.is_empty());
+}
+
+fn ipv6_exts_dec_read<const L: usize>(hbh: bool, dest: bool, route: bool, fdest: bool, frag: bool, auth: bool) {
+    let mut v = ipv6_exts_members(hbh, dest, route, fdest, frag, auth);
+    let first = v.set_next_headers(last_proto());
+    let mut m = Cap::<L>::new();
+    ipv6_exts_write_members(&v, &mut m);
+    assert!(!m.overflow && m.len == L);
+    let mut r = Rd::new(&m.buf);
+    let (d, next) = must_ok!(Ipv6Extensions::read(&mut r, first));
+    assert!(d == v);
+    assert!(next == last_proto());
+    assert!(r.exact());
+}
+
+pub fn ipv6_exts_none() {
+    let mut v = ipv6_exts_members(false, false, false, false, false, false);
+    let first = v.set_next_headers(last_proto());
+    assert!(first == last_proto());
+    assert!(v.is_empty() && v.header_len() == 0);
+    let mut w = Cap::<2>::new();
+    must_ok!(v.write(&mut w, first));
+    assert!(!w.overflow && w.len == 0);
+    let (d, next, rest) = must_ok!(Ipv6Extensions::from_slice(first, &w.buf[..0]));
+    assert!(d == v && next == first && rest.is_empty());
+    let mut r = Rd::new(&w.buf[..0]);
+    let (d, next) = must_ok!(Ipv6Extensions::read(&mut r, first));
+    assert!(d == v && next == first && r.exact());
+}
+
+pub fn ipv6_exts_frag_enc() {
+    ipv6_exts_enc::<8>(false, false, false, false, true, false)
+}
+pub fn ipv6_exts_frag_slice() {
+    ipv6_exts_dec_slice::<8>(false, false, false, false, true, false)
+}
+pub fn ipv6_exts_frag_read() {
+    ipv6_exts_dec_read::<8>(false, false, false, false, true, false)
+}
+pub fn ipv6_exts_hbh_frag_enc() {
+    ipv6_exts_enc::<16>(true, false, false, false, true, false)
+}
+pub fn ipv6_exts_hbh_frag_slice() {
+    ipv6_exts_dec_slice::<16>(true, false, false, false, true, false)
+}
+/// every member except the authentication header
+pub fn ipv6_exts_all_raw_enc() {
+    ipv6_exts_enc::<40>(true, true, true, true, true, false)
+}
+/// authentication header only (decode side; `write` with an authentication header is not decided, see above)
+pub fn ipv6_exts_auth_slice() {
+    ipv6_exts_dec_slice::<16>(false, false, false, false, false, true)
+}
+
+/// a second order, links set by hand: routing -> fragment -> (final) destination options -> UDP
+fn ipv6_exts_other() -> Ipv6Extensions {
+    let mut v = ipv6_exts_members(false, false, true, true, true, false);
+    if let Some(r) = v.routing.as_mut() {
+        r.routing.next_header = IpNumber(44);
+        if let Some(f) = r.final_destination_options.as_mut() {
+            f.next_header = last_proto();
+        }
+    }
+    if let Some(f) = v.fragment.as_mut() {
+        f.next_header = IpNumber(60);
+    }
+    v
+}
+fn ipv6_exts_other_bytes(v: &Ipv6Extensions) -> Cap<24> {
+    let mut m = Cap::<24>::new();
+    let r = v.routing.as_ref().unwrap();
+    must_ok!(r.routing.write(&mut m));
+    must_ok!(v.fragment.as_ref().unwrap().write(&mut m));
+    must_ok!(r.final_destination_options.as_ref().unwrap().write(&mut m));
+    assert!(!m.overflow && m.len == 24);
+    m
+}
+pub fn ipv6_exts_other_order_enc() {
+    let v = ipv6_exts_other();
+    assert!(v.header_len() == 24);
+    let mut w = Cap::<24>::new();
+    must_ok!(v.write(&mut w, IpNumber(43)));
+    assert!(!w.overflow && w.len == 24);
+    let m = ipv6_exts_other_bytes(&v);
+    assert!(words_eq(&w.buf, &m.buf));
+}
+// Direction 2 (bytes -> value -> bytes) of `Ipv6Extensions` is not decided on its own: two decoder
+// walks in one harness exceed 16 GB. It follows for the decided chains from the member harnesses
+// (`*_bytes`) and the `*_enc` / `*_slice` pairs above.
+
+// ------------------------------------------------------------------------------------------
+// IpHeaders (IPv4 / IPv6 header + extensions)
+// ------------------------------------------------------------------------------------------
+//
+// Same decomposition as for the extension headers: `*_enc` decides that `IpHeaders::write` emits
+// the base header's own `write` output followed by the extensions' `write` output (and that
+// header_len is the sum); `*_dec` decides that decoding those bytes gives the value back.
+// `IpHeaders::write` uses `Ipv4Header::write`, i.e. the computed header checksum: a consistent
+// IPv4 value carries `header_checksum == calc_header_checksum()`. The length fields must cover the
+// headers (`from_slice` cuts the slice by them): total_len = headers + payload, payload_length =
+// extensions + payload; the payload (0..=2 symbolic bytes) is appended to the bytes.
+// Concrete per harness: the IPv4 option length and the upper layer protocol (UDP, 17).
+// Only the IPv4 variant without extension header is decided: `IpHeaders` is a 9 KB enum (its IPv6
+// variant embeds `Ipv6Extensions`) and CBMC needs > 20 GB for the IPv6 variant even without any
+// extension header, and did not finish `IpHeaders::read` in 15 minutes (both measured).
+
+const IPH_PAYLOAD: usize = 2;
+
+fn ip_v4_headers(words: usize, auth: bool, pay: usize) -> IpHeaders {
+    let mut h = ipv4_header_w(words);
+    let mut e = Ipv4Extensions { auth: if auth { Some(auth_header_k::<1>()) } else { None } };
+    h.protocol = e.set_next_headers(last_proto());
+    h.total_len = (20 + 4 * words + if auth { 16 } else { 0 } + pay) as u16;
+    h.header_checksum = h.calc_header_checksum();
+    IpHeaders::Ipv4(h, e)
+}
+
+/// base header and extensions as they write themselves
+fn ip_headers_write_members<const L: usize>(v: &IpHeaders, w: &mut Cap<L>) {
+    match v {
+        IpHeaders::Ipv4(h, e) => {
+            must_ok!(h.write(w));
+            if let Some(a) = e.auth.as_ref() {
+                must_ok!(a.write(w));
+            }
+        }
+        IpHeaders::Ipv6(h, e) => {
+            must_ok!(h.write(w));
+            ipv6_exts_write_members(e, w);
+        }
+    }
+}
+
+fn ip_headers_enc<const L: usize>(v: &IpHeaders) {
+    assert!(v.header_len() == L);
+    let mut w = Cap::<L>::new();
+    must_ok!(v.write(&mut w));
+    assert!(!w.overflow && w.len == L);
+    let mut m = Cap::<L>::new();
+    ip_headers_write_members(v, &mut m);
+    assert!(!m.overflow && m.len == L);
+    assert!(w.buf == m.buf);
+    // NetHeaders wrapper announces the same length
+    assert!(NetHeaders::from(v.clone()).header_len() == L);
+}
+
+/// `a == b` without the 16 iteration address comparisons of the derived `PartialEq` (the decode
+/// harnesses keep the unwind bound at 9, see above): addresses are compared as 128 bit numbers
+fn ip_headers_eq(a: &IpHeaders, b: &IpHeaders) -> bool {
+    match (a, b) {
+        (IpHeaders::Ipv4(ah, ae), IpHeaders::Ipv4(bh, be)) => ah == bh && ae == be,
+        (IpHeaders::Ipv6(ah, ae), IpHeaders::Ipv6(bh, be)) => {
+            ah.traffic_class == bh.traffic_class
+                && ah.flow_label == bh.flow_label
+                && ah.payload_length == bh.payload_length
+                && ah.next_header == bh.next_header
+                && ah.hop_limit == bh.hop_limit
+                && u128::from_be_bytes(ah.source) == u128::from_be_bytes(bh.source)
+                && u128::from_be_bytes(ah.destination) == u128::from_be_bytes(bh.destination)
+                && ae == be
+        }
+        _ => false,
+    }
+}
+
+/// L = header length + IPH_PAYLOAD
+fn ip_headers_dec_slice<const L: usize>(v: &IpHeaders, pay: usize) {
+    let mut m = Cap::<L>::new();
+    ip_headers_write_members(v, &mut m);
+    let hl = m.len;
+    assert!(hl + IPH_PAYLOAD == L);
+    let tail: [u8; IPH_PAYLOAD] = any();
+    io::Write::write_all(&mut m, &tail[..pay]).unwrap();
+    assert!(!m.overflow);
+    let (d, p) = must_ok!(IpHeaders::from_slice(m.bytes()));
+    assert!(ip_headers_eq(&d, v));
+    assert!(p.ip_number == last_proto());
+    assert!(p.payload.len() == pay); // nothing of the headers is left over
+    assert!(p.payload.as_ptr() == m.buf[hl..].as_ptr());
+    assert!(p.fragmented == v.is_fragmenting_payload());
+}
+
+pub fn ip_headers_v4_enc() {
+    ip_headers_enc::<20>(&ip_v4_headers(0, false, any_le(IPH_PAYLOAD)));
+    ip_headers_enc::<24>(&ip_v4_headers(1, false, any_le(IPH_PAYLOAD)));
+}
+pub fn ip_headers_v4_slice() {
+    let pay = any_le(IPH_PAYLOAD);
+    witness!(pay == 2, "payload");
+    ip_headers_dec_slice::<26>(&ip_v4_headers(1, false, pay), pay);
+}
+pub fn ip_headers_v4_max_enc() {
+    ip_headers_enc::<60>(&ip_v4_headers(10, false, any_le(IPH_PAYLOAD)));
+}
+crate::harnesses! {
+    c08_eth2_value = eth2_value; unwind 20,
+    c08_eth2_bytes = eth2_bytes; unwind 20,
+    c08_sll_value = sll_value; unwind 20,
+    c08_sll_bytes = sll_bytes; unwind 20,
+    c08_vlan_value = vlan_value; unwind 10,
+    c08_vlan_bytes = vlan_bytes; unwind 10,
+    c08_macsec_value = macsec_value; unwind 20,
+    c08_macsec_bytes = macsec_bytes; unwind 20,
+    c08_link_wrappers = link_wrappers; unwind 20,
+    c08_arp_value_6_4 = arp_value_6_4; unwind 30,
+    c08_arp_read_6_4 = arp_read_6_4; unwind 30,
+    c08_arp_value_0_0 = arp_value_0_0; unwind 12,
+    c08_arp_value_1_2 = arp_value_1_2; unwind 16,
+    c08_arp_read_1_2 = arp_read_1_2; unwind 16,
+    c08_arp_value_8_8 = arp_value_8_8; unwind 42,
+    c08_arp_read_8_8 = arp_read_8_8; unwind 42,
+    c08_arp_value_3_0 = arp_value_3_0; unwind 16,
+    c08_arp_value_0_5 = arp_value_0_5; unwind 20,
+    c08_arp_value_shrunk = arp_value_shrunk; unwind 30,
+    c08_arp_bytes_6_4 = arp_bytes_6_4; unwind 32,
+    c08_arp_bytes_1_2 = arp_bytes_1_2; unwind 18,
+    c08_arp_bytes_8_8 = arp_bytes_8_8; unwind 44,
+    c08_arp_eth_ipv4_value = arp_eth_ipv4_value; unwind 30,
+    c08_arp_eth_ipv4_bytes = arp_eth_ipv4_bytes; unwind 30,
+    c08_ipv4_value = ipv4_value; unwind 62,
+    c08_ipv4_value_read = ipv4_value_read; unwind 62,
+    c08_ipv4_value_write = ipv4_value_write; unwind 62,
+    c08_ipv4_bytes = ipv4_bytes; unwind 62,
+    c08_ipv6_value = ipv6_value; unwind 42,
+    c08_ipv6_bytes = ipv6_bytes; unwind 42,
+    c08_ipv6_frag_value = ipv6_frag_value; unwind 10,
+    c08_ipv6_frag_bytes = ipv6_frag_bytes; unwind 10,
+    c08_udp_value = udp_value; unwind 10,
+    c08_udp_bytes = udp_bytes; unwind 10,
+    c08_tcp_value = tcp_value; unwind 62,
+    c08_tcp_value_read = tcp_value_read; unwind 62,
+    c08_tcp_bytes = tcp_bytes; unwind 62,
+    c08_icmp_echo_rt = icmp_echo_rt; unwind 6,
+    c08_icmpv4_value = icmpv4_value; unwind 22,
+    c08_icmpv4_value_write = icmpv4_value_write; unwind 22,
+    c08_icmpv4_bytes = icmpv4_bytes; unwind 22,
+    c08_icmpv6_value = icmpv6_value; unwind 10,
+    c08_icmpv6_value_write = icmpv6_value_write; unwind 10,
+    c08_icmpv6_bytes = icmpv6_bytes; unwind 10,
+    c08_icmpv6_ndp_headers_rt = icmpv6_ndp_headers_rt; unwind 6,
+    c08_icmpv6_payload_value = icmpv6_payload_value; unwind 34,
+    c08_icmpv6_payload_bytes = icmpv6_payload_bytes; unwind 34,
+    c08_prefix_info_value = prefix_info_value; unwind 34,
+    c08_prefix_info_bytes = prefix_info_bytes; unwind 34,
+    c08_igmp_value = igmp_value; unwind 14,
+    c08_igmp_bytes = igmp_bytes; unwind 14,
+    c08_igmp_record_value = igmp_record_value; unwind 10,
+    c08_igmp_record_bytes = igmp_record_bytes; unwind 10,
+    c08_auth_value = auth_value; unwind 26,
+    c08_auth_bytes = auth_bytes; unwind 26,
+    c08_auth_to_bytes_0 = auth_to_bytes_0; unwind 1018,
+    c08_auth_to_bytes_1 = auth_to_bytes_1; unwind 1018,
+    c08_raw_ext_value = raw_ext_value; unwind 26,
+    c08_raw_ext_value_read = raw_ext_value_read; unwind 26,
+    c08_raw_ext_to_bytes_0 = raw_ext_to_bytes_0; unwind 26,
+    c08_raw_ext_to_bytes_1 = raw_ext_to_bytes_1; unwind 26,
+    c08_raw_ext_to_bytes_2 = raw_ext_to_bytes_2; unwind 26,
+    c08_raw_ext_bytes = raw_ext_bytes; unwind 28,
+    c08_raw_ext_bytes_to_bytes_0 = raw_ext_bytes_to_bytes_0; unwind 28,
+    c08_raw_ext_bytes_to_bytes_2 = raw_ext_bytes_to_bytes_2; unwind 28,
+    c08_ipv4_exts_none = ipv4_exts_none; unwind 6,
+    c08_ipv4_exts_auth_dec = ipv4_exts_auth_dec; unwind 26,
+    c08_ipv4_exts_bytes_auth = ipv4_exts_bytes_auth; unwind 26,
+    c08_ipv6_exts_none = ipv6_exts_none; unwind 9,
+    c08_ipv6_exts_frag_enc = ipv6_exts_frag_enc; unwind 9,
+    c08_ipv6_exts_frag_slice = ipv6_exts_frag_slice; unwind 3,
+    c08_ipv6_exts_frag_read = ipv6_exts_frag_read; unwind 3,
+    c08_ipv6_exts_hbh_frag_enc = ipv6_exts_hbh_frag_enc; unwind 9,
+    c08_ipv6_exts_hbh_frag_slice = ipv6_exts_hbh_frag_slice; unwind 9,
+    c08_ipv6_exts_all_raw_enc = ipv6_exts_all_raw_enc; unwind 9,
+    c08_ipv6_exts_auth_slice = ipv6_exts_auth_slice; unwind 9,
+    c08_ipv6_exts_other_order_enc = ipv6_exts_other_order_enc; unwind 9,
+    c08_ip_headers_v4_enc = ip_headers_v4_enc; unwind 30,
+    c08_ip_headers_v4_slice = ip_headers_v4_slice; unwind 30,
+    c08_ip_headers_v4_max_enc = ip_headers_v4_max_enc; unwind 64,
+}
